@@ -74,13 +74,88 @@ def is_pure(e):
         if any(k.arg is None for k in e.keywords):
             return False
         args_ok = all(is_pure(a) for a in e.args) and all(is_pure(k.value) for k in e.keywords)
+        if consumes_name(e):
+            return False
         if isinstance(e.func, ast.Name):
-            return e.func.id in PURE_FUNCS and args_ok
+            return e.func.id in PURE_FUNCS and e.func.id not in SHADOWED[0] and args_ok
         if isinstance(e.func, ast.Attribute):
-            return e.func.attr in PURE_METHODS and is_pure(e.func.value) and args_ok
+            # a method name counts as the standard library's only if no function of the analysed code base has that name
+            return e.func.attr in PURE_METHODS and (builtin_only(e.func.attr) or e.func.attr in ALWAYS_STDLIB and _stdlib_receiver(e.func.value)) \
+                and is_pure(e.func.value) and args_ok
         return False
     if isinstance(e, ast.ListComp):
+        first = e.generators[0].iter
+        if isinstance(first, ast.Name) and first.id not in NOT_ITERATORS[0]:
+            return False        # runs through a bare name that may be an iterator
         return is_pure(e.elt) and all(is_pure(g.iter) and all(is_pure(i) for i in g.ifs) for g in e.generators)
+    return False
+
+
+NONRAISING_FUNCS = {'len', 'isinstance', 'bool', 'id', 'type', 'repr', 'str', 'hasattr', 'callable', 'issubclass', 'enumerate', 'zip', 'list', 'tuple', 'set', 'dict',
+                    'frozenset', 'sorted', 'reversed', 'range', 'slice', 'abs'}
+NONRAISING_METHODS = {'strip', 'lstrip', 'rstrip', 'lower', 'upper', 'split', 'rsplit', 'startswith', 'endswith', 'find', 'rfind', 'replace', 'keys', 'values', 'items',
+                      'count', 'match', 'search', 'fullmatch', 'groups', 'center', 'ljust', 'rjust', 'isdigit', 'isalpha', 'isprintable', 'isspace', 'copy', 'splitlines',
+                      'partition', 'title', 'capitalize', 'zfill', 'bit_length', 'dirname', 'basename', 'splitext', 'get'}
+
+
+def may_raise(e):
+    """an expression whose evaluation can fail for ordinary data (a missing key / index, a conversion, a division, an unknown
+    call): where and whether it is evaluated matters even if it has no side effects.  Type errors are not counted."""
+    for n in ast.walk(e):
+        if isinstance(n, ast.Subscript) and not isinstance(n.slice, ast.Slice):
+            return True
+        if isinstance(n, ast.BinOp) and isinstance(n.op, (ast.Div, ast.FloorDiv, ast.Mod)):
+            return True
+        if isinstance(n, ast.Call):
+            if isinstance(n.func, ast.Name) and n.func.id in NONRAISING_FUNCS:
+                continue
+            if isinstance(n.func, ast.Attribute) and n.func.attr in NONRAISING_METHODS:
+                continue
+            return True
+        if isinstance(n, (ast.Yield, ast.YieldFrom, ast.Await)):
+            return True
+    return False
+
+
+# builtins that exhaust an iterator handed to them: applied to a bare name (which may be bound to an iterator / generator) the call
+# changes that object, so it is neither free of side effects nor droppable nor reorderable against other uses of the name
+CONSUMERS = {'list', 'tuple', 'set', 'frozenset', 'sorted', 'sum', 'min', 'max', 'any', 'all', 'dict', 'bytes', 'bytearray', 'next'}
+# names of the function at hand that are bound to something that is not an iterator (a list / dict / set / tuple display, a
+# comprehension, a call of list / dict / ..., a string or number literal) by every one of their assignments; set by canonical()
+NOT_ITERATORS = [frozenset()]
+# builtin names rebound in the function at hand (parameters / locals called `type`, `format`, `len`, ...); set by canonical()
+SHADOWED = [frozenset()]
+ALWAYS_STDLIB = {'match', 'search', 'fullmatch', 'group', 'groups', 'pack', 'unpack', 'unpack_from', 'dirname', 'basename', 'splitext', 'join'}
+
+
+def _stdlib_receiver(v):
+    """receivers that are standard-library objects by their spelling: os.path, struct, re, a string literal, a compiled regular
+    expression kept in a constant (RE_...)"""
+    c = chain(v)
+    if isinstance(v, ast.Constant) and isinstance(v.value, (str, bytes)):
+        return True
+    if c is None:
+        return False
+    import re as _re
+    return c[:2] == ('os', 'path') or c[0] in ('struct', 're') or bool(_re.fullmatch(r'_*RE_[A-Z0-9_]+', c[-1]))
+
+
+def consumes_name(e):
+    """a call that runs through an iterable given as a bare name (list(it), sorted(it), sum(x for x in it), sep.join(it),
+    out.extend(it)) - unless every assignment of that name in the function binds a container"""
+    if not isinstance(e, ast.Call):
+        return False
+
+    def bare(a):
+        if isinstance(a, ast.Starred):
+            a = a.value
+        if isinstance(a, (ast.GeneratorExp, ast.ListComp, ast.SetComp, ast.DictComp)):
+            a = a.generators[0].iter
+        return isinstance(a, ast.Name) and a.id not in NOT_ITERATORS[0]
+    if isinstance(e.func, ast.Name) and e.func.id in CONSUMERS:
+        return any(bare(a) for a in e.args)
+    if isinstance(e.func, ast.Attribute) and e.func.attr in ('join', 'extend', 'update', 'writelines'):
+        return any(bare(a) for a in e.args)
     return False
 
 
@@ -104,8 +179,9 @@ def known_str(e):
         f = e.func
         if isinstance(f, ast.Name) and f.id in ('str', 'repr', 'chr', 'ascii', 'hex', 'oct', 'bin'):
             return True
-        if isinstance(f, ast.Attribute) and f.attr == 'decode' and builtin_only('decode'):
-            return True         # bytes.decode / bytearray.decode
+        if isinstance(f, ast.Attribute) and f.attr == 'decode' and builtin_only('decode') and all(isinstance(a, ast.Constant) and isinstance(a.value, str) for a in e.args) \
+                and not e.keywords:
+            return True         # bytes.decode('ascii') (a codec object's decode takes the data as its argument)
         if isinstance(f, ast.Attribute) and f.attr in ('join', 'format') and isinstance(f.value, ast.Constant) and isinstance(f.value.value, str):
             return True
     return False
@@ -129,16 +205,28 @@ def read_chains(e):
     """maximal attribute chains read by expression e (as tuples), plus bare names"""
     out = set()
 
+    def cut(c):
+        # an attribute that is a property of some class of the module may read any other attribute of its object
+        for i in range(1, len(c)):
+            if c[i] in ALL_PROPS[0]:
+                return c[:i]
+        return c
+
     def rec(x):
+        if isinstance(x, ast.Call) and isinstance(x.func, ast.Attribute):
+            # a method reads its receiver as a whole (self.count() depends on everything under self)
+            c = chain(x.func.value)
+            if c is not None:
+                out.add(cut(c))
         if isinstance(x, (ast.Attribute, ast.Name)):
             c = chain(x)
             if c is not None:
-                out.add(c)
+                out.add(cut(c))
                 return
         if isinstance(x, ast.Subscript):
             c = chain(x.value)
             if c is not None:
-                out.add(c)
+                out.add(cut(c))
             else:
                 rec(x.value)
             rec(x.slice)
@@ -147,6 +235,13 @@ def read_chains(e):
             rec(ch)
     rec(e)
     return out
+
+
+# names decorated @property in any class of the module at hand (set by canonical from its context)
+ALL_PROPS = [frozenset()]
+# pairs of chains that may denote the same object in the function at hand (a = self.rows; for row in self.rows; self.cur = rec;
+# with .. as h): a write through one is a write through the other; set by canonical()
+ALIASES = [()]
 
 
 def _prefix(a, b):
@@ -187,24 +282,78 @@ def written_chains(st):
                 c = chain(n.func.value)
                 if c is not None:
                     out.add(c)
-            if isinstance(n.func, ast.Attribute) and n.func.attr == 'extend' and builtin_only('extend'):
-                # list / bytearray / deque .extend only iterates its argument (no class of the package defines `extend`)
+            if isinstance(n.func, ast.Attribute) and n.func.attr == 'extend' and builtin_only('extend') and not consumes_name(n):
+                # list / bytearray / deque .extend only iterates its argument (no class of the package defines `extend`); an
+                # argument that may be an iterator is used up by it
                 continue
-            for a in list(n.args) + [k.value for k in n.keywords]:
+
+            def arg_chains(a):
                 if isinstance(a, ast.Starred):
                     a = a.value
-                c = chain(a) if isinstance(a, (ast.Name, ast.Attribute)) else None
+                if isinstance(a, (ast.Tuple, ast.List, ast.Set)):
+                    for x in a.elts:            # objects handed over inside a display
+                        arg_chains(x)
+                    return
+                if isinstance(a, ast.Dict):
+                    for x in a.values:
+                        arg_chains(x)
+                    return
+                if isinstance(a, ast.IfExp):
+                    arg_chains(a.body)
+                    arg_chains(a.orelse)
+                    return
+                c = chain(a) if isinstance(a, (ast.Name, ast.Attribute, ast.Subscript)) else None
                 if c is not None:
                     out.add(c)
+            for a in list(n.args) + [k.value for k in n.keywords]:
+                arg_chains(a)
+            if isinstance(n.func, ast.Attribute) and isinstance(n.func.value, ast.IfExp):
+                for br in (n.func.value.body, n.func.value.orelse):
+                    c = chain(br)
+                    if c is not None:
+                        out.add(c)
+        elif isinstance(n, ast.Call) and consumes_name(n):
+            for a in n.args:
+                if isinstance(a, ast.Starred):
+                    a = a.value
+                if isinstance(a, (ast.GeneratorExp, ast.ListComp, ast.SetComp, ast.DictComp)):
+                    a = a.generators[0].iter
+                if isinstance(a, ast.Name):
+                    out.add((a.id,))
         elif isinstance(n, (ast.Yield, ast.YieldFrom, ast.Await)):
             out.add(('*',))        # control leaves the function: anything may change
     return out
+
+
+def _with_aliases(w):
+    """written chains plus, for each chain written through a name / attribute that may be another name for an object, that
+    object as a whole"""
+    out = set(w)
+    for _ in range(3):
+        more = set()
+        for a in out:
+            for p, q in ALIASES[0]:
+                if a[:len(p)] == p and q not in out:
+                    more.add(q)
+                if a[:len(q)] == q and p not in out:
+                    more.add(p)
+        if not more:
+            break
+        out |= more
+    return out
+
+
+MUTABLE_GLOBALS = [frozenset()]     # names some function of the module declares `global` (ctx['mutable_globals'])
 
 
 def interferes(st, reads):
     w = written_chains(st)
     if ('*',) in w:
         return True
+    w = {c[:c.index('__dict__')] if '__dict__' in c else c for c in w}
+    w = _with_aliases(w)
+    if MUTABLE_GLOBALS[0] and any(r[0] in MUTABLE_GLOBALS[0] for r in reads) and any(isinstance(n, ast.Call) and not is_pure(n) for n in ast.walk(st)):
+        return True         # any call may run a function that rebinds such a name
     return any(_prefix(a, b) for a in w for b in reads)
 
 
@@ -263,17 +412,68 @@ def _has_nested_scope_use(func, name):
     return False
 
 
+_NESTED = (ast.FunctionDef, ast.AsyncFunctionDef, ast.Lambda, ast.ClassDef)
+_COMPS = (ast.ListComp, ast.SetComp, ast.DictComp, ast.GeneratorExp)
+
+
+def _free_names(e):
+    return {n.id for n in ast.walk(e) if isinstance(n, ast.Name)}
+
+
 class _Subst(ast.NodeTransformer):
+    """Load uses of the mapped names replaced by expressions.  Nested functions / lambdas / classes are left alone (their text is
+    compared as written).  Inside a comprehension a name the comprehension binds is the comprehension's own variable, and an
+    expression that mentions such a name cannot be written there (it would be captured): NotCanonicalisable."""
     def __init__(self, mapping):
         self.mapping = mapping
+        self.bound = []
 
     def visit_Name(self, node):
         if isinstance(node.ctx, ast.Load) and node.id in self.mapping:
-            return copy.deepcopy(self.mapping[node.id])
+            if any(node.id in b for b in self.bound):
+                return node
+            new = self.mapping[node.id]
+            free = _free_names(new)
+            if any(free & b for b in self.bound):
+                raise NotCanonicalisable('capture')
+            return copy.deepcopy(new)
         return node
+
+    def _comp(self, node):
+        b = {n.id for g in node.generators for n in ast.walk(g.target) if isinstance(n, ast.Name)}
+        # the first iterable is evaluated outside the comprehension
+        node.generators[0].iter = self.visit(node.generators[0].iter)
+        self.bound.append(b)
+        try:
+            for i, g in enumerate(node.generators):
+                if i:
+                    g.iter = self.visit(g.iter)
+                g.ifs = [self.visit(x) for x in g.ifs]
+            if isinstance(node, ast.DictComp):
+                node.key = self.visit(node.key)
+                node.value = self.visit(node.value)
+            else:
+                node.elt = self.visit(node.elt)
+        finally:
+            self.bound.pop()
+        return node
+    visit_ListComp = visit_SetComp = visit_DictComp = visit_GeneratorExp = _comp
+
+    def _nested(self, node):
+        return node
+    visit_Lambda = visit_ClassDef = _nested
+
+    def visit_FunctionDef(self, node):
+        if not getattr(self, '_root_seen', False):
+            self._root_seen = True
+            return self.generic_visit(node)
+        return node
+    visit_AsyncFunctionDef = visit_FunctionDef
 
 
 class _Rename(ast.NodeTransformer):
+    """names renamed everywhere except inside nested functions / lambdas / classes (kept as written; the names they mention are
+    never renamed outside either, see canonical())"""
     def __init__(self, mapping):
         self.mapping = mapping
 
@@ -281,6 +481,17 @@ class _Rename(ast.NodeTransformer):
         if node.id in self.mapping:
             node.id = self.mapping[node.id]
         return node
+
+    def visit_Lambda(self, node):
+        return node
+    visit_ClassDef = visit_Lambda
+
+    def visit_FunctionDef(self, node):
+        if not getattr(self, '_root_seen', False):
+            self._root_seen = True
+            return self.generic_visit(node)
+        return node
+    visit_AsyncFunctionDef = visit_FunctionDef
 
     def visit_ExceptHandler(self, node):
         if node.name in self.mapping:
@@ -300,7 +511,56 @@ def _simple_helper(h):
         return False
     if h.decorator_list and not all(isinstance(d, ast.Name) and d.id == 'staticmethod' for d in h.decorator_list):
         return False
+    return _pasteable(h)
+
+
+def _pasteable(h):
+    """conditions common to every way of pasting a helper: a plain (not async) function, defaults that are literals (a default is
+    evaluated once, at definition), no private names (`__x` is spelled differently inside another class)"""
+    if isinstance(h, ast.AsyncFunctionDef):
+        return False
+    if not all(isinstance(d, ast.Constant) for d in h.args.defaults):
+        return False
+    for n in ast.walk(h):
+        name = n.attr if isinstance(n, ast.Attribute) else n.id if isinstance(n, ast.Name) else None
+        if name and name.startswith('__') and not name.endswith('__'):
+            return False
     return True
+
+
+def _helper_free_names(h):
+    """names the helper reads from the enclosing module (not its parameters, not its own locals)"""
+    own = set(_params(h)) | {n.id for n in ast.walk(h) if isinstance(n, ast.Name) and isinstance(n.ctx, (ast.Store, ast.Del))}
+    own |= {n.name for n in ast.walk(h) if isinstance(n, ast.ExceptHandler) and n.name}
+    return {n.id for b in h.body for n in ast.walk(b) if isinstance(n, ast.Name) and isinstance(n.ctx, ast.Load)} - own
+
+
+def _caller_bound(func):
+    out = set(_params(func)) | {n.id for n in ast.walk(func) if isinstance(n, ast.Name) and isinstance(n.ctx, (ast.Store, ast.Del))}
+    out |= {n.name for n in ast.walk(func) if isinstance(n, ast.ExceptHandler) and n.name}
+    out |= {(a.asname or a.name).split('.')[0] for n in ast.walk(func) if isinstance(n, (ast.Import, ast.ImportFrom)) for a in n.names}
+    return out
+
+
+_OTHER_METHODS = [frozenset()]       # method names defined by other classes of the module (ctx['other_class_methods'])
+
+
+def _helper_call_name(call, helpers, bound):
+    """the key in `helpers` of the helper this call certainly reaches, else None: a module-level helper called by its bare name
+    (not rebound in the caller), a method called on `self` (or, if static, on the class by name), and no other class of the
+    module defines a method of that name (the receiver might be an instance of a subclass that overrides it)"""
+    f = call.func
+    if isinstance(f, ast.Name) and f.id in helpers and not helpers[f.id][1] and f.id not in bound:
+        name = f.id
+    elif isinstance(f, ast.Attribute) and isinstance(f.value, ast.Name) and f.attr in helpers and helpers[f.attr][1] \
+            and (f.value.id == 'self' and 'self' in bound or f.value.id == _CLASS[0] and _CLASS[0] and _CLASS[0] not in bound) and f.attr not in _OTHER_METHODS[0]:
+        name = f.attr
+    else:
+        return None
+    h = helpers[name][0]
+    if not _pasteable(h) or _helper_free_names(h) & bound:
+        return None
+    return name
 
 
 def _tailify(stmts, make):
@@ -400,20 +660,29 @@ def inline_expression_helpers(func, helpers):
     if not table:
         return False
     changed = [False]
+    bound = _caller_bound(func)
+
+    def simple(a):
+        # written into the helper's expression an argument may be evaluated twice, later, or not at all: only names, literals
+        # and attribute chains (which neither fail nor change anything) may take that place
+        return isinstance(a, ast.Constant) or isinstance(a, (ast.Name, ast.Attribute)) and chain(a) is not None and not any(isinstance(x, ast.Subscript) for x in ast.walk(a))
 
     class T(ast.NodeTransformer):
+        def visit_Lambda(self, node):
+            return node
+        visit_ClassDef = visit_Lambda
+
+        def visit_FunctionDef(self, node):
+            return self.generic_visit(node) if node is func else node
+        visit_AsyncFunctionDef = visit_FunctionDef
+
         def visit_Call(self, node):
             self.generic_visit(node)
-            f = node.func
-            name = None
-            if isinstance(f, ast.Name) and f.id in table and not table[f.id][1]:
-                name = f.id
-            elif isinstance(f, ast.Attribute) and isinstance(f.value, ast.Name) and f.value.id == 'self' and f.attr in table and table[f.attr][1]:
-                name = f.attr
+            name = _helper_call_name(node, {k: (helpers[k][0], v[1]) for k, v in table.items()}, bound)
             if name is None or node.keywords or any(isinstance(a, ast.Starred) for a in node.args):
                 return node
             (params, expr), _ = table[name]
-            if len(node.args) != len(params) or not all(is_pure(a) for a in node.args):
+            if len(node.args) != len(params) or not all(simple(a) for a in node.args):
                 return node
             changed[0] = True
             return _Subst(dict(zip(params, node.args))).visit(copy.deepcopy(expr))
@@ -425,6 +694,7 @@ def hoist_helper_calls(func, helpers, counter):
     """`x = g(helper(a))` -> `t = helper(a); x = g(t)` when nothing but names and constants is evaluated before the call in
     that statement (so moving the call to the front changes no order of effects); inline_helpers then pastes the helper."""
     changed = False
+    bound = _caller_bound(func)
     for owner, block in _all_blocks(func):
         i = 0
         while i < len(block):
@@ -442,23 +712,30 @@ def hoist_helper_calls(func, helpers, counter):
                 if x is top or not isinstance(x, ast.Call):
                     continue
                 f = x.func
-                if isinstance(f, ast.Name) and f.id in helpers and not helpers[f.id][1]:
-                    pass
-                elif isinstance(f, ast.Attribute) and isinstance(f.value, ast.Name) and f.value.id == 'self' and f.attr in helpers and helpers[f.attr][1]:
-                    pass
-                else:
+                hname = _helper_call_name(x, helpers, bound)
+                if hname is None:
                     continue
                 inside = {id(n) for n in ast.walk(x)}
-                h = helpers[f.id if isinstance(f, ast.Name) else f.attr][0]
+                h = helpers[hname][0]
                 static = any(isinstance(d, ast.Name) and d.id == 'staticmethod' for d in h.decorator_list)
                 # what the call may change: its whole-object arguments and, unless static, its receiver
                 w = set()
                 if isinstance(f, ast.Attribute) and not static:
                     w.add(chain(f.value))
                 for a_ in list(x.args) + [k_.value for k_ in x.keywords]:
-                    c_ = chain(a_) if isinstance(a_, (ast.Name, ast.Attribute)) else None
+                    c_ = chain(a_) if isinstance(a_, (ast.Name, ast.Attribute, ast.Subscript)) else None
                     if c_ is not None:
                         w.add(c_)
+                # ... and whatever its body names as changed (module-level objects, class attributes)
+                hp = set(_params(h))
+                for hs in h.body:
+                    for c_ in written_chains(hs):
+                        if c_[0] not in hp and c_ != ('*',):
+                            w.add(c_[:1])
+                        elif c_ == ('*',):
+                            w.add(('*',))
+                if ('*',) in w:
+                    break
 
                 def harmless(y):
                     if isinstance(y, (ast.Name, ast.Constant)):
@@ -485,6 +762,7 @@ def inline_helpers(func, helpers, counter):
     """helpers: name -> (FunctionDef, is_method).  Calls `self.name(args)` / `name(args)` / `Cls.name(args)` that form a whole
     statement (expression statement, assignment value, return value) are replaced by the helper's body."""
     changed = False
+    bound = _caller_bound(func)
     for owner, block in _all_blocks(func):
         i = 0
         while i < len(block):
@@ -500,13 +778,7 @@ def inline_helpers(func, helpers, counter):
                 call, mode = st.value, 'aug'
             elif isinstance(st, ast.Expr) and isinstance(st.value, ast.Yield) and isinstance(st.value.value, ast.Call):
                 call, mode = st.value.value, 'yield'
-            name = None
-            if call is not None:
-                f = call.func
-                if isinstance(f, ast.Name) and f.id in helpers and not helpers[f.id][1]:
-                    name = f.id
-                elif isinstance(f, ast.Attribute) and isinstance(f.value, ast.Name) and f.attr in helpers and helpers[f.attr][1]:
-                    name = f.attr
+            name = _helper_call_name(call, helpers, bound) if call is not None else None
             if name is None or call.keywords and any(k.arg is None for k in call.keywords):
                 i += 1
                 continue
@@ -522,7 +794,7 @@ def inline_helpers(func, helpers, counter):
             kw = {k.arg: k.value for k in call.keywords}
             defaults = dict(zip(params[len(params) - len(h.args.defaults):], h.args.defaults)) if h.args.defaults else {}
             binding = {}
-            ok = True
+            ok = len(kw) == len(call.keywords) and all(k in params[len(args):] for k in kw)        # every keyword names a parameter not given by position
             for j, p in enumerate(params):
                 if j < len(args):
                     binding[p] = args[j]
@@ -535,6 +807,11 @@ def inline_helpers(func, helpers, counter):
             if not ok or len(args) > len(params) or any(isinstance(a, ast.Starred) for a in args):
                 i += 1
                 continue
+            has_try = any(isinstance(n, ast.Try) for b_ in h.body for n in ast.walk(b_))
+            if has_try and (mode in ('aug', 'yield') or mode == 'assign' and not (len(st.targets) == 1 and isinstance(st.targets[0], ast.Name))):
+                # the caller's own store / yield would come to stand inside the helper's try block, where its failure is caught
+                i += 1
+                continue
             counter[0] += 1
             suffix = f'__h{counter[0]}'
             body = copy.deepcopy(h.body)
@@ -544,12 +821,15 @@ def inline_helpers(func, helpers, counter):
             ren = _Rename({x: x + suffix for x in hl})
             body = [ren.visit(s) for s in body]
             pre = []
-            for p in params:
+            # arguments are evaluated in the order of the call: positional ones, then keywords as written, then defaults (literals)
+            order = params[:len(args)] + [k.arg for k in call.keywords] + [p for p in params[len(args):] if p not in kw]
+            for p in order:
                 a = ast.Assign(targets=[ast.Name(id=p + suffix, ctx=ast.Store())], value=copy.deepcopy(binding[p]))
                 pre.append(a)
             def make(ret, st=st, mode=mode):
                 if mode == 'expr':
-                    return [ast.Expr(value=ret)] if not is_pure(ret) else []
+                    # the value is dropped, its evaluation (which may fail) is not
+                    return [ast.Expr(value=ret)] if not isinstance(ret, (ast.Constant, ast.Name)) else []
                 if mode == 'assign':
                     return [ast.Assign(targets=copy.deepcopy(st.targets), value=ret)]
                 if mode == 'aug':
@@ -610,14 +890,51 @@ def _fstring_of_format(call):
         vals.append(fv)
     if k and any(f is not None and f != '' for _, f, _, _ in parts):
         return None
+    # the f-string evaluates each argument where its field stands: the fields must name the arguments 0, 1, 2, ... each exactly
+    # once and in order (format() evaluates all of them first, once each), and an argument with side effects may only follow
+    # fields that cannot fail while formatting (no format specification)
+    used = [int(f) if f else i for i, (_, f, _, _) in enumerate(p_ for p_ in parts if p_[1] is not None)]
+    if used != list(range(len(call.args))):
+        return None
+    fields = [p_ for p_ in parts if p_[1] is not None]
+    for i, a in enumerate(call.args):
+        if not is_pure(a) and any(sp for _, _, sp, _ in fields[:i]):
+            return None
     return ast.JoinedStr(values=vals)
 
 
+_SELF_FIRST = [False]
+
+
 class _ExprRewrite(ast.NodeTransformer):
+    in_comp = 0
+
+    def visit_Lambda(self, node):
+        return node         # nested scopes are compared as written
+    visit_ClassDef = visit_Lambda
+
+    def visit_FunctionDef(self, node):
+        if not getattr(self, '_root_seen', False):
+            self._root_seen = True
+            return self.generic_visit(node)
+        return node
+    visit_AsyncFunctionDef = visit_FunctionDef
+
+    def _comp(self, node):
+        self.in_comp += 1
+        try:
+            return self.generic_visit(node)
+        finally:
+            self.in_comp -= 1
+    visit_GeneratorExp = visit_SetComp = visit_DictComp = _comp
+
     def visit_Call(self, node):
         self.generic_visit(node)
         if isinstance(node.func, ast.Name) and node.func.id == 'super' and len(node.args) == 2 and not node.keywords \
-                and isinstance(node.args[1], ast.Name) and node.args[1].id == 'self' and isinstance(node.args[0], ast.Name) and node.args[0].id == _CLASS[0]:
+                and isinstance(node.args[1], ast.Name) and node.args[1].id == 'self' and isinstance(node.args[0], ast.Name) and node.args[0].id == _CLASS[0] \
+                and _SELF_FIRST[0] and not self.in_comp:
+            # (zero-argument super() needs the method's own frame: not inside a comprehension / generator; and `self` must be
+            # the first parameter)
             node.args = []
             return node
         if isinstance(node.func, ast.IfExp):
@@ -626,7 +943,8 @@ class _ExprRewrite(ast.NodeTransformer):
             return ast.copy_location(ast.IfExp(test=fe.test, body=ast.Call(func=fe.body, args=node.args, keywords=node.keywords),
                                                orelse=ast.Call(func=fe.orelse, args=copy.deepcopy(node.args), keywords=copy.deepcopy(node.keywords))), node)
         if isinstance(node.func, ast.Attribute) and node.func.attr == 'get' and isinstance(node.func.value, ast.Name) and node.func.value.id in _DICTS[0] \
-                and len(node.args) in (1, 2) and not node.keywords and all(is_pure(a) and not isinstance(a, ast.Starred) for a in node.args):
+                and len(node.args) in (1, 2) and not node.keywords and all(is_pure(a) and not isinstance(a, ast.Starred) for a in node.args) \
+                and (len(node.args) == 1 or isinstance(node.args[1], (ast.Constant, ast.Name))) and not self.in_comp:
             # D.get(k, d) on a module-level dict display is D[k] if k in D else d
             d_, k_ = node.func.value, node.args[0]
             dflt = node.args[1] if len(node.args) == 2 else ast.Constant(value=None)
@@ -722,7 +1040,11 @@ class _ExprRewrite(ast.NodeTransformer):
         return node
 
     def visit_ListComp(self, node):
-        self.generic_visit(node)
+        self.in_comp += 1
+        try:
+            self.generic_visit(node)
+        finally:
+            self.in_comp -= 1
         g = node.generators
         if len(g) == 1 and not g[0].ifs and not g[0].is_async and isinstance(g[0].target, ast.Name) and isinstance(node.elt, ast.Name) and node.elt.id == g[0].target.id:
             return ast.Call(func=ast.Name(id='list', ctx=ast.Load()), args=[g[0].iter], keywords=[])
@@ -775,6 +1097,11 @@ def eval_order(e):
                 rec(k.value)
             out.append(x)
             return
+        if isinstance(x, ast.Compare) and len(x.ops) > 1:
+            rec(x.left)
+            rec(x.comparators[0])
+            out.append(x)          # later operands are evaluated only while the chain holds
+            return
         for c in ast.iter_child_nodes(x):
             if isinstance(c, ast.expr):
                 rec(c)
@@ -805,11 +1132,14 @@ def _stmt_exprs(st):
     return None
 
 
-def _impure_before(st, node):
-    """True if an expression with possible side effects is evaluated in statement st before `node` is"""
+def _impure_before(st, node, moved=None):
+    """True if an expression with possible side effects is evaluated in statement st before `node` is - or, when `moved` (an
+    expression with side effects that is to be evaluated at the place of node) is given, if something read before node is
+    something `moved` may change.  A while test is evaluated again on every iteration: never a place to move a call to."""
     exprs = _stmt_exprs(st)
-    if exprs is None:
+    if exprs is None or isinstance(st, ast.While):
         return True
+    wr = _with_aliases(written_chains(ast.Expr(value=moved))) if moved is not None else set()
     for e in exprs:
         for x in eval_order(e):
             if x is node:
@@ -818,7 +1148,31 @@ def _impure_before(st, node):
                 continue            # an ancestor of node: evaluated after it
             if isinstance(x, (ast.Call, ast.Yield, ast.YieldFrom, ast.Await, ast.NamedExpr)) and not is_pure(x):
                 return True
+            if wr and isinstance(x, (ast.Name, ast.Attribute, ast.Subscript)) and isinstance(getattr(x, 'ctx', None), ast.Load):
+                if ('*',) in wr:
+                    return True
+                c = chain(x)
+                if c is not None and any(_prefix(c, w) for w in wr):
+                    return True
     return True     # node not found in the header expressions
+
+
+def _evaluated_before(st, node):
+    """the sub-expressions with side effects that statement st evaluates before `node` (wrapped as statements, for
+    interferes()); the whole header when node stands in a conditionally evaluated place"""
+    exprs = _stmt_exprs(st)
+    if exprs is None:
+        return [st]
+    out = []
+    for e in exprs:
+        for x in eval_order(e):
+            if x is node:
+                return out
+            if any(y is node for y in ast.walk(x)):
+                continue
+            if isinstance(x, (ast.Call, ast.Yield, ast.YieldFrom, ast.Await, ast.NamedExpr)) and not is_pure(x):
+                out.append(ast.Expr(value=x))
+    return [ast.Expr(value=e) for e in exprs]
 
 
 def _replace_node(root, old, new):
@@ -877,17 +1231,30 @@ def _split_ifexp(func):
     return changed
 
 
+def _handler_read_names(func):
+    """names mentioned in an exception handler or a finally clause: such code may run after any statement of the try body, so a
+    value these names hold must not be moved, renamed or dropped"""
+    out = set()
+    for t in ast.walk(func):
+        if isinstance(t, ast.Try):
+            for part in [h.body for h in t.handlers] + [t.finalbody]:
+                for s_ in part:
+                    out |= {n.id for n in ast.walk(s_) if isinstance(n, ast.Name)}
+    return out
+
+
 def return_of_assignment(func):
     """`t = E; return t` (t a local) is `return E`: the name is dead after the return"""
     changed = False
     params = set(_params(func))
+    hreads = _handler_read_names(func)
     for owner, block in _all_blocks(func):
         i = 0
         while i + 1 < len(block):
             a, b = block[i], block[i + 1]
             if isinstance(a, ast.Assign) and len(a.targets) == 1 and isinstance(a.targets[0], ast.Name) and isinstance(b, ast.Return) and isinstance(b.value, ast.Name) \
-                    and b.value.id == a.targets[0].id and not _has_nested_scope_use(func, b.value.id) and not any(isinstance(n, (ast.Global, ast.Nonlocal)) for n in ast.walk(func)):
-                inside_try_finally = False
+                    and b.value.id == a.targets[0].id and not _has_nested_scope_use(func, b.value.id) and not any(isinstance(n, (ast.Global, ast.Nonlocal)) for n in ast.walk(func)) \
+                    and b.value.id not in hreads:
                 b.value = a.value
                 del block[i]
                 changed = True
@@ -923,7 +1290,7 @@ def inline_next_use(func):
                 if t not in params and len(stores.get(t, [])) == 1 and len(loads.get(t, [])) == 1 and not _has_nested_scope_use(func, t) and not is_pure(st.value):
                     use = loads[t][0]
                     exprs = _stmt_exprs(nx)
-                    if exprs is not None and any(any(n is use for n in ast.walk(e)) for e in exprs) and not _impure_before(nx, use) \
+                    if exprs is not None and any(any(n is use for n in ast.walk(e)) for e in exprs) and not _impure_before(nx, use, st.value) \
                             and not any(isinstance(a, (ast.IfExp, ast.BoolOp, ast.Lambda, ast.GeneratorExp, ast.ListComp, ast.SetComp, ast.DictComp)) and any(n is use for n in ast.walk(a)) and a is not use
                                         and not (isinstance(a, (ast.ListComp, ast.SetComp, ast.DictComp)) and _first_iter_chain(a, use))
                                         for e in exprs for a in ast.walk(e)):
@@ -1007,7 +1374,7 @@ def assignments_to_ifexp(func):
                 tn = {t.id for t in st.targets[0].elts if isinstance(t, ast.Name)}
                 tc = {chain(t) for t in st.targets[0].elts}
                 attr_ok = all(isinstance(t, ast.Name) for t in st.targets[0].elts) or (
-                    all(is_pure(v) for v in st.value.elts) and not any(_prefix(r, c) for v in st.value.elts for r in read_chains(v) for c in tc))
+                    all(is_pure(v) and not may_raise(v) for v in st.value.elts) and not any(_prefix(r, c) for v in st.value.elts for r in read_chains(v) for c in tc))
                 if attr_ok and not any(isinstance(n, ast.Name) and n.id in tn for v in st.value.elts for n in ast.walk(v)) and not any(isinstance(v, ast.Starred) for v in st.value.elts):
                     new = [ast.Assign(targets=[t], value=v) for t, v in zip(st.targets[0].elts, st.value.elts)]
                     for n in new:
@@ -1017,9 +1384,10 @@ def assignments_to_ifexp(func):
                     changed = True
                     continue
             # unpacking a side-effect-free value into names: a, b = E  ->  a = E[0]; b = E[1]
-            if isinstance(st, ast.Assign) and len(st.targets) == 1 and isinstance(st.targets[0], ast.Tuple) and not isinstance(st.value, ast.Tuple) \
+            # (not done any more: unpacking checks the length, indexing does not)
+            if False and isinstance(st, ast.Assign) and len(st.targets) == 1 and isinstance(st.targets[0], ast.Tuple) and not isinstance(st.value, ast.Tuple) \
                     and all(isinstance(t, ast.Name) for t in st.targets[0].elts) and is_pure(st.value) and not _allocates(st.value) \
-                    or (isinstance(st, ast.Assign) and len(st.targets) == 1 and isinstance(st.targets[0], ast.Tuple)
+                    or (False and isinstance(st, ast.Assign) and len(st.targets) == 1 and isinstance(st.targets[0], ast.Tuple)
                                                                and all(isinstance(t, ast.Name) for t in st.targets[0].elts) and isinstance(st.value, ast.Subscript) and is_pure(st.value)):
                 tn = {t.id for t in st.targets[0].elts}
                 if not any(isinstance(n, ast.Name) and n.id in tn for n in ast.walk(st.value)):
@@ -1048,6 +1416,7 @@ def assignments_to_ifexp(func):
                 if ta is not None and not st.orelse and i > 0:
                     prev = block[i - 1]
                     if isinstance(prev, ast.Assign) and len(prev.targets) == 1 and isinstance(prev.targets[0], ast.Name) and prev.targets[0].id == ta and is_pure(prev.value) \
+                            and not may_raise(prev.value) \
                             and not any(isinstance(n, ast.Name) and n.id == ta for n in ast.walk(st.test)) and not any(isinstance(n, ast.Name) and n.id == ta for n in ast.walk(va)) \
                             and not interferes(ast.Expr(value=st.test), read_chains(prev.value)):
                         new = ast.Assign(targets=[ast.Name(id=ta, ctx=ast.Store())], value=ast.IfExp(test=st.test, body=va, orelse=prev.value))
@@ -1075,6 +1444,8 @@ def enumerate_to_index(func):
             i, e = st.target.elts[0].id, st.target.elts[1].id
             if not is_pure(X) or _allocates(X) or isinstance(X, ast.Call):
                 continue
+            if chain(X) not in _SEQS[0]:
+                continue            # enumerate() and indexing agree on lists / tuples / strings only (not on dicts, sets, iterators)
             reads = read_chains(X)
             if any(interferes(s_, reads) for s_ in st.body):
                 continue
@@ -1127,7 +1498,9 @@ def sink_constant_inits(func):
                 x = st.targets[0].id
                 j = None
                 for k in range(i + 1, len(block)):
-                    if any(isinstance(n, ast.Name) and n.id == x for n in ast.walk(block[k])) or any(isinstance(n, ast.ExceptHandler) and n.name == x for n in ast.walk(block[k])):
+                    if any(isinstance(n, ast.Name) and n.id == x for n in ast.walk(block[k])) or any(isinstance(n, ast.ExceptHandler) and n.name == x for n in ast.walk(block[k])) \
+                            or any(isinstance(n, (ast.Import, ast.ImportFrom)) and any((a_.asname or a_.name).split('.')[0] == x for a_ in n.names) for n in ast.walk(block[k])) \
+                            or any(isinstance(n, (ast.FunctionDef, ast.AsyncFunctionDef, ast.ClassDef)) and n.name == x for n in ast.walk(block[k])):
                         j = k
                         break
                 # a statement in between that can leave the block (continue / break / return) would skip the initialisation: the
@@ -1157,10 +1530,25 @@ def _is_init(st, params, in_handlers):
     return (isinstance(v, ast.Constant) or bool(empty)) and st.targets[0].id not in params and st.targets[0].id not in in_handlers
 
 
+def _in_try(func):
+    """ids of the statements that stand (at any depth) inside a try statement: when one of them fails half-way, what it has done so
+    far is visible to the handlers and to the code after them"""
+    out = set()
+    for t in ast.walk(func):
+        if isinstance(t, ast.Try):
+            for part in [t.body, t.orelse] + [h.body for h in t.handlers]:
+                for s_ in part:
+                    out |= {id(n) for n in ast.walk(s_)}
+    return out
+
+
 def loops_to_comprehensions(func):
     """`x = [..]` followed by `for t in it: [if c:] x.append(e)` (t not used afterwards) is `x = [..] + [e for t in it if c]`"""
     changed = False
+    in_try = _in_try(func)
     for owner, block in _all_blocks(func):
+        if block and id(block[0]) in in_try:
+            continue        # the partially filled list would be visible after a failure
         i = 0
         while i + 1 < len(block):
             a, lp = block[i], block[i + 1]
@@ -1210,7 +1598,7 @@ def sink_into_branches(func):
                         and not _name_nodes(nx.test, t) and not interferes(ast.Expr(value=st.value), read_chains(nx.test)) \
                         and len(_name_nodes(ast.Module(body=nx.body, type_ignores=[]), t)) == 1 and len(_name_nodes(ast.Module(body=nx.orelse, type_ignores=[]), t)) == 1 \
                         and len(_name_nodes(nx.body[0], t)) == 1 and len(_name_nodes(nx.orelse[0], t)) == 1 \
-                        and all(_stmt_exprs(b0) is not None and not _impure_before(b0, _name_nodes(b0, t)[0]) for b0 in (nx.body[0], nx.orelse[0])) \
+                        and all(_stmt_exprs(b0) is not None and not _impure_before(b0, _name_nodes(b0, t)[0], st.value) for b0 in (nx.body[0], nx.orelse[0])) \
                         and not any(_name_nodes(s_, t) for s_ in block[i + 2:]):
                     # (only where it lets the value be written in place of the name: used once, first thing, in each branch)
                     a, b = copy.deepcopy(st), copy.deepcopy(st)
@@ -1241,12 +1629,20 @@ def try_keyerror_idioms(func):
                 continue
             b, h = st.body[0], st.handlers[0].body[0]
             new = None
+
+            def plain(sub):
+                # D[k] with D a module-level dict display or an attribute only ever bound to containers, k a name / attribute /
+                # literal: the lookup itself is then the only thing that can raise KeyError, and D has no __missing__
+                c = chain(sub.value) if isinstance(sub.value, (ast.Name, ast.Attribute)) else None
+                return c is not None and (c in _SIZED[0] or len(c) == 1 and c[0] in _DICTS[0]) and \
+                    (isinstance(sub.slice, ast.Constant) or isinstance(sub.slice, (ast.Name, ast.Attribute)) and chain(sub.slice) is not None)
             if isinstance(b, ast.Assign) and isinstance(h, ast.Assign) and len(b.targets) == 1 and len(h.targets) == 1 and isinstance(b.targets[0], ast.Name) \
-                    and ast.dump(b.targets[0]) == ast.dump(h.targets[0]) and isinstance(b.value, ast.Subscript) and is_pure(b.value) \
+                    and ast.dump(b.targets[0]) == ast.dump(h.targets[0]) and isinstance(b.value, ast.Subscript) and is_pure(b.value) and plain(b.value) \
                     and isinstance(h.value, ast.Constant) and h.value.value is None:
                 new = ast.Assign(targets=b.targets, value=ast.Call(func=ast.Attribute(value=b.value.value, attr='get', ctx=ast.Load()), args=[b.value.slice], keywords=[]))
             elif isinstance(b, ast.Expr) and isinstance(b.value, ast.Call) and isinstance(b.value.func, ast.Attribute) and b.value.func.attr == 'append' \
                     and isinstance(b.value.func.value, ast.Subscript) and len(b.value.args) == 1 and is_pure(b.value.args[0]) and is_pure(b.value.func.value) \
+                    and plain(b.value.func.value) and not may_raise(b.value.args[0]) \
                     and isinstance(h, ast.Assign) and len(h.targets) == 1 and ast.dump(h.targets[0]).replace('Store()', 'Load()') == ast.dump(b.value.func.value) \
                     and isinstance(h.value, ast.List) and len(h.value.elts) == 1 and ast.dump(h.value.elts[0]) == ast.dump(b.value.args[0]):
                 sub = b.value.func.value
@@ -1261,7 +1657,7 @@ def try_keyerror_idioms(func):
 
 
 def loops_to_any(func):
-    """`for v in X: if P: return R` (P free of side effects, R a constant, v not used afterwards) is `if any([P for v in X]): return R`"""
+    """`for v in X: if P: return R` (P free of side effects, R a constant, v not used afterwards) is `if any(P for v in X): return R`"""
     changed = False
     for owner, block in _all_blocks(func):
         for i, lp in enumerate(block):
@@ -1275,7 +1671,8 @@ def loops_to_any(func):
             outer = [n for n in ast.walk(func) if isinstance(n, ast.Name) and n.id in tnames and not any(n is y for y in ast.walk(lp))]
             if outer:
                 continue
-            comp = ast.ListComp(elt=test, generators=[ast.comprehension(target=lp.target, iter=lp.iter, ifs=[], is_async=0)])
+            # a generator: any() stops at the first hit as the loop does (a list would evaluate the test for every element)
+            comp = ast.GeneratorExp(elt=test, generators=[ast.comprehension(target=lp.target, iter=lp.iter, ifs=[], is_async=0)])
             new = ast.If(test=ast.Call(func=ast.Name(id='any', ctx=ast.Load()), args=[comp], keywords=[]), body=[ret], orelse=[])
             ast.copy_location(new, lp)
             ast.fix_missing_locations(new)
@@ -1289,12 +1686,13 @@ def _reorderable(st):
     value to a name / attribute chain, or an in-place container method on an attribute chain with side-effect-free arguments;
     None for anything else (calls of unknown functions keep their order)"""
     if isinstance(st, ast.Assign) and len(st.targets) == 1 and isinstance(st.targets[0], (ast.Name, ast.Attribute)) and chain(st.targets[0]) and is_pure(st.value) \
-            and not _allocates_shared(st.value):
+            and not _allocates_shared(st.value) and not may_raise(st.value):
         base = st.targets[0].value if isinstance(st.targets[0], ast.Attribute) else None
         # (the object whose attribute is set is only referred to: a bare name there reads nothing another statement writes)
         return read_chains(st.value) | (read_chains(base) if base is not None and not isinstance(base, ast.Name) else set()), {chain(st.targets[0])}
     if isinstance(st, ast.Expr) and isinstance(st.value, ast.Call) and isinstance(st.value.func, ast.Attribute) and st.value.func.attr in ('append', 'add', 'extend', 'update', 'clear') \
-            and chain(st.value.func.value) and len(chain(st.value.func.value)) >= 2 and not st.value.keywords and all(is_pure(a) for a in st.value.args):
+            and chain(st.value.func.value) and len(chain(st.value.func.value)) >= 2 and not st.value.keywords and all(is_pure(a) and not may_raise(a) for a in st.value.args) \
+            and not consumes_name(st.value):
         rd = set()
         for a in st.value.args:
             rd |= read_chains(a)
@@ -1369,6 +1767,18 @@ def _fold_bool(e):
     return e
 
 
+def _boolean_locals(func):
+    """locals (not parameters) bound exactly once, by `name = <truth value>` (a comparison, not, isinstance, ...)"""
+    params, stores, loads = _defs_and_uses(func)
+    out = set()
+    for n in ast.walk(func):
+        if isinstance(n, ast.Assign) and len(n.targets) == 1 and isinstance(n.targets[0], ast.Name) and _is_boolean(n.value):
+            t = n.targets[0].id
+            if t not in params and len(stores.get(t, [])) == 1 and not _has_nested_scope_use(func, t):
+                out.add(t)
+    return out
+
+
 def sink_bool_assign(func):
     """`T = E(b)` (E free of side effects, b a local truth value tested by the very next `if b:` / `if not b:`) becomes the
     first statement of both branches with b replaced by what it is there"""
@@ -1382,7 +1792,7 @@ def sink_bool_assign(func):
                 neg = isinstance(t, ast.UnaryOp) and isinstance(t.op, ast.Not)
                 bname = (t.operand if neg else t)
                 if isinstance(bname, ast.Name) and _is_boolean(st.value) and any(isinstance(n, ast.Name) and n.id == bname.id for n in ast.walk(st.value)) \
-                        and chain(st.targets[0]) and chain(st.targets[0]) != (bname.id,) and is_pure(st.targets[0]):
+                        and chain(st.targets[0]) and chain(st.targets[0]) != (bname.id,) and is_pure(st.targets[0]) and bname.id in _boolean_locals(func):
                     def variant(val):
                         v = _Subst({bname.id: ast.Constant(value=val)}).visit(copy.deepcopy(st.value))
                         a = ast.Assign(targets=copy.deepcopy(st.targets), value=_fold_bool(v))
@@ -1437,7 +1847,7 @@ def drop_dead_locals(func):
     for owner, block in _all_blocks(func):
         for st in list(block):
             if isinstance(st, ast.Assign) and len(st.targets) == 1 and isinstance(st.targets[0], ast.Name) and st.targets[0].id in dead:
-                if is_pure(st.value):
+                if is_pure(st.value) and not may_raise(st.value):
                     block.remove(st)
                     if not block:
                         block.append(ast.Pass())
@@ -1482,6 +1892,9 @@ def _defs_and_uses(func):
             (stores if isinstance(n.ctx, (ast.Store, ast.Del)) else loads).setdefault(n.id, []).append(n)
         elif isinstance(n, ast.ExceptHandler) and n.name:
             stores.setdefault(n.name, []).append(n)
+        elif isinstance(n, (ast.Import, ast.ImportFrom)):
+            for a_ in n.names:
+                stores.setdefault((a_.asname or a_.name).split('.')[0], []).append(n)
     return params, stores, loads
 
 
@@ -1550,6 +1963,17 @@ def _between(func, def_stmt, use_node):
         if depth > k:
             for s_ in b[:i]:
                 out.extend(_falling_parts(s_))
+        if depth < len(upath) - 1:
+            # the use stands in a block nested in st: the header of st (if / while test, for iterable, with items) is evaluated
+            # on the way there
+            for e in (_stmt_exprs(st) or []):
+                out.append(ast.Expr(value=e))
+            if isinstance(st, (ast.With, ast.AsyncWith)):
+                for it in st.items:
+                    if it.optional_vars is not None:
+                        out.append(ast.Assign(targets=[it.optional_vars], value=ast.Constant(value=None)))
+        else:
+            out.extend(_evaluated_before(st, use_node))
         if isinstance(st, (ast.For, ast.AsyncFor, ast.While)) and depth < len(upath) - 1:
             out.append(st)
         elif isinstance(st, (ast.For, ast.AsyncFor, ast.While)) and depth == len(upath) - 1:
@@ -1571,10 +1995,18 @@ def _allocates(e):
     """the value is a new mutable object: its identity matters, it cannot be written out twice"""
     if isinstance(e, (ast.List, ast.Dict, ast.Set, ast.ListComp, ast.SetComp, ast.DictComp)):
         return True
-    if isinstance(e, ast.Call) and isinstance(e.func, ast.Name) and e.func.id in ('list', 'dict', 'set', 'bytearray', 'sorted'):
-        return True
+    if isinstance(e, ast.Call) and isinstance(e.func, ast.Name) and e.func.id in ('list', 'dict', 'set', 'bytearray', 'sorted', 'zip', 'map', 'filter', 'iter', 'reversed', 'enumerate'):
+        return True         # (the lazy ones are one-shot iterators)
     if isinstance(e, ast.Call) and isinstance(e.func, ast.Attribute) and e.func.attr in ('copy', 'split', 'rsplit', 'splitlines', 'keys', 'values', 'items'):
         return True
+    if isinstance(e, ast.GeneratorExp):
+        return True
+    if isinstance(e, ast.BinOp) and isinstance(e.op, (ast.Mult, ast.Add)) and (_allocates(e.left) or _allocates(e.right)):
+        return True         # [0] * n, [a] + rest
+    if isinstance(e, ast.Subscript) and isinstance(e.slice, ast.Slice):
+        return True         # a slice of a list is a new list
+    if isinstance(e, ast.IfExp):
+        return _allocates(e.body) or _allocates(e.orelse)
     return False
 
 
@@ -1612,7 +2044,21 @@ def inline_temps(func):
                 uses = loads.get(t, [])
                 reads = read_chains(st.value)
                 ok = True
-                for u in uses:
+                if may_raise(st.value):
+                    # where (and whether) it fails must stay the same: one use, in a later statement of the same block, at a place
+                    # that is evaluated unconditionally, with nothing in between that changes state or can fail itself
+                    ok = len(uses) == 1
+                    if ok:
+                        up = _stmt_path(func, uses[0])
+                        ok = up is not None and up[-1][0] is block and not isinstance(up[-1][2], (ast.While, ast.For, ast.AsyncFor)) \
+                            and any(x is uses[0] for e in (_stmt_exprs(up[-1][2]) or []) for x in eval_order(e))
+                    if ok:
+                        for s_ in block[block.index(st) + 1:up[-1][1]]:
+                            if not (isinstance(s_, ast.Assign) and all(isinstance(t_, ast.Name) for t_ in s_.targets) and is_pure(s_.value) and not may_raise(s_.value)):
+                                ok = False
+                        if _evaluated_before(up[-1][2], uses[0]):
+                            ok = False
+                for u in uses if ok else []:
                     btw = _between(func, st, u)
                     if btw is None or any(interferes(s, reads) for s in btw):
                         ok = False
@@ -1756,6 +2202,14 @@ def split_webs(func, counter):
             if isinstance(expr.ctx, ast.Load) and expr.id not in bound:
                 use_sets.append((expr, env.get(expr.id, frozenset([(ENTRY, expr.id)]))))
             return
+        if isinstance(expr, ast.NamedExpr):
+            # `(n := E)`: a definition that may or may not be reached (it can stand in a conditionally evaluated operand)
+            uses_in(expr.value, env, bound)
+            if not bound:
+                d = (id(expr.target), expr.target.id)
+                def_nodes[d] = expr.target
+                env[expr.target.id] = env.get(expr.target.id, frozenset([(ENTRY, expr.target.id)])) | frozenset([d])
+            return
         for c in ast.iter_child_nodes(expr):
             if isinstance(c, (ast.expr, ast.keyword, ast.comprehension)) or isinstance(c, ast.AST) and not isinstance(c, (ast.stmt, ast.expr_context, ast.operator, ast.unaryop, ast.boolop, ast.cmpop)):
                 uses_in(c, env, bound)
@@ -1851,14 +2305,21 @@ def split_webs(func, counter):
                 if env is None:
                     return None
             elif isinstance(st, ast.Try):
-                snap = [dict(env)]
+                def all_defs(stmts):
+                    # every definition made anywhere inside these statements: an exception may be raised after any of them
+                    out = {}
+                    for s_ in stmts:
+                        for n in ast.walk(s_):
+                            if isinstance(n, ast.Name) and isinstance(n.ctx, (ast.Store, ast.Del)):
+                                out[n.id] = out.get(n.id, frozenset()) | frozenset([(id(n), n.id)])
+                            elif isinstance(n, ast.ExceptHandler) and n.name:
+                                out[n.name] = out.get(n.name, frozenset()) | frozenset([(id(n), n.name)])
+                    return out
+                # break / continue inside a try that has a finally clause pass through that clause first
+                inner_loop = {'continue': [], 'break': []} if (st.finalbody and loop is not None) else loop
                 e = dict(env)
-                body_out = e
-                for s_ in st.body:
-                    body_out = flow([s_], body_out, loop) if body_out is not None else None
-                    if body_out is not None:
-                        snap.append(dict(body_out))
-                hin = merge(*snap)
+                body_out = flow(st.body, e, inner_loop)
+                hin = merge(env, body_out, all_defs(st.body))
                 outs = []
                 for h in st.handlers:
                     he = dict(hin)
@@ -1867,13 +2328,19 @@ def split_webs(func, counter):
                         d = (id(h), h.name)
                         def_nodes[d] = h
                         he[h.name] = frozenset([d])
-                    outs.append(flow(h.body, he, loop))
-                e_else = flow(st.orelse, body_out, loop) if (st.orelse and body_out is not None) else body_out
+                    outs.append(flow(h.body, he, inner_loop))
+                e_else = flow(st.orelse, body_out, inner_loop) if (st.orelse and body_out is not None) else body_out
                 live = [x for x in [e_else] + outs if x is not None]
                 env = merge(*live) if live else None
                 if st.finalbody:
-                    fin_in = merge(hin, *(live or [hin]))
+                    fin_in = merge(hin, *(live or [hin]), all_defs([x for h in st.handlers for x in h.body] + list(st.orelse)))
                     env2 = flow(st.finalbody, fin_in, loop)
+                    if inner_loop is not loop:
+                        for kind in ('continue', 'break'):
+                            for e_ in inner_loop[kind]:
+                                e3 = flow(st.finalbody, merge(e_, fin_in), loop)
+                                if e3 is not None:
+                                    loop[kind].append(e3)
                     env = env2 if env is not None else None
                 if env is None:
                     return None
@@ -1945,6 +2412,7 @@ def copy_propagate(func):
     before): x is p under another name, whatever else is assigned to x later (x takes over p's storage)"""
     changed = False
     params, stores, loads = _defs_and_uses(func)
+    hreads = _handler_read_names(func)
     for owner, block in _all_blocks(func):
         for i, st in enumerate(list(block)):
             if not (isinstance(st, ast.Assign) and len(st.targets) == 1 and isinstance(st.targets[0], ast.Name) and isinstance(st.value, ast.Name)):
@@ -1952,7 +2420,11 @@ def copy_propagate(func):
             x, p = st.targets[0].id, st.value.id
             if x == p or x in params:
                 continue
+            if p not in params and p not in stores:
+                continue        # a module-level name: not this function's to rename
             if _has_nested_scope_use(func, x) or _has_nested_scope_use(func, p):
+                continue
+            if {x, p} & hreads:
                 continue
             inside = {id(n) for s_ in block[i:] for n in ast.walk(s_)}
             # every occurrence of x lies in this block from this statement on
@@ -2020,12 +2492,26 @@ def _is_boolean(e):
     return False
 
 
+def _intlike(e):
+    """visibly an integer: an int literal, a shift, a mask, int(..), len(..), ord(..)"""
+    if isinstance(e, ast.Constant):
+        return type(e.value) is int
+    if isinstance(e, ast.BinOp) and isinstance(e.op, (ast.LShift, ast.RShift, ast.BitAnd)):
+        return True
+    if isinstance(e, ast.BinOp) and isinstance(e.op, (ast.BitOr, ast.BitXor)):
+        return _intlike(e.left) or _intlike(e.right)
+    if isinstance(e, ast.Call) and isinstance(e.func, ast.Name) and e.func.id in ('int', 'len', 'ord'):
+        return True
+    return False
+
+
 def cx(e):
     """canonical text of an expression: structure only; mirrored comparisons and symmetric operators are ordered"""
     if e is None:
         return '~'
     if isinstance(e, ast.Constant):
-        return 'c' + repr(e.value) if not isinstance(e.value, float) else 'c' + repr(e.value)
+        # `#` cannot start a name: the name c1 and the literal 1 have different texts; the marker of renamed locals is escaped
+        return '#' + repr(e.value).replace(MARK, '\\xa7').replace('$L', '$\\x4c')
     if isinstance(e, ast.Name):
         return e.id
     if isinstance(e, ast.Attribute):
@@ -2053,11 +2539,14 @@ def cx(e):
             else:
                 leaves.append(x)
         flat(e)
-        if not any(isinstance(x, (ast.List, ast.Tuple, ast.JoinedStr)) or isinstance(x, ast.Constant) and isinstance(x.value, (str, bytes)) for x in leaves):
+        if not any(isinstance(x, (ast.List, ast.Tuple, ast.JoinedStr)) or isinstance(x, ast.Constant) and isinstance(x.value, (str, bytes)) for x in leaves) \
+                and all(is_pure(x) for x in leaves):
             return '(Mult ' + ' '.join(sorted(cx(x) for x in leaves)) + ')'
     if isinstance(e, ast.BinOp):
         a, b = cx(e.left), cx(e.right)
-        if isinstance(e.op, _COMMUTE) and b < a:
+        # operands change places only when neither has side effects; `|` only between things that are visibly integers
+        # (for dicts the right operand wins)
+        if isinstance(e.op, _COMMUTE) and b < a and is_pure(e.left) and is_pure(e.right) and (not isinstance(e.op, ast.BitOr) or _intlike(e.left) or _intlike(e.right)):
             a, b = b, a
         return f'({type(e.op).__name__} {a} {b})'
     if isinstance(e, ast.BoolOp):
@@ -2066,10 +2555,11 @@ def cx(e):
         if len(e.ops) == 1:
             op = type(e.ops[0])
             a, b = cx(e.left), cx(e.comparators[0])
-            if op in _MIRROR:
+            both_pure = is_pure(e.left) and is_pure(e.comparators[0])
+            if op in _MIRROR and both_pure:
                 op = _MIRROR[op]
                 a, b = b, a
-            if op in (ast.Eq, ast.NotEq, ast.Is, ast.IsNot) and b < a:
+            if op in (ast.Eq, ast.NotEq, ast.Is, ast.IsNot) and b < a and both_pure:
                 a, b = b, a
             return f'({op.__name__} {a} {b})'
         if all(is_pure(c) for c in e.comparators[:-1]):
@@ -2077,10 +2567,10 @@ def cx(e):
         return '(cmp ' + cx(e.left) + ' ' + ' '.join(type(o).__name__ + ' ' + cx(c) for o, c in zip(e.ops, e.comparators)) + ')'
     if isinstance(e, ast.Call) and isinstance(e.func, ast.Name) and e.func.id in ('min', 'max', 'tuple', 'list', 'sorted', 'set', 'frozenset', 'len', 'iter') \
             and len(e.args) == 1 and isinstance(e.args[0], ast.Call) and isinstance(e.args[0].func, ast.Attribute) and e.args[0].func.attr == 'keys' \
-            and not e.args[0].args and not e.args[0].keywords:
+            and not e.args[0].args and not e.args[0].keywords and builtin_only('keys'):
         # iterating a mapping is iterating its keys
         return cx(ast.Call(func=e.func, args=[e.args[0].func.value], keywords=e.keywords))
-    if isinstance(e, ast.Call) and isinstance(e.func, ast.Name) and e.func.id in ('sum', 'min', 'max', 'any', 'all', 'tuple', 'list', 'sorted', 'set', 'frozenset') \
+    if isinstance(e, ast.Call) and isinstance(e.func, ast.Name) and e.func.id in ('sum', 'min', 'max', 'tuple', 'list', 'sorted', 'set', 'frozenset') \
             and len(e.args) == 1 and not e.keywords and isinstance(e.args[0], ast.GeneratorExp):
         # consumed completely and at once: the same as the list comprehension
         lc = ast.ListComp(elt=e.args[0].elt, generators=e.args[0].generators)
@@ -2089,7 +2579,7 @@ def cx(e):
         lc = ast.ListComp(elt=e.args[0].elt, generators=e.args[0].generators)
         return f'{cx(e.func)}({cx(lc)})'
     if isinstance(e, ast.Call) and any(isinstance(a, ast.Starred) and (isinstance(a.value, ast.List) or isinstance(a.value, ast.BinOp) and isinstance(a.value.op, ast.Add)
-                                       and isinstance(a.value.left, ast.List)) for a in e.args):
+                                       and isinstance(a.value.left, ast.List) and _is_sequence_value(a.value.right) and not isinstance(a.value.right, ast.Tuple)) for a in e.args):
         # f(*([a, b] + rest)) is f(a, b, *rest)
         args = []
         for a in e.args:
@@ -2110,7 +2600,9 @@ def cx(e):
         a2 = ast.Call(func=e.func, args=e.args[:k] + [t.orelse] + e.args[k + 1:], keywords=[])
         return cx(ast.IfExp(test=t.test, body=a1, orelse=a2))
     if isinstance(e, ast.Call):
-        kws = sorted((k.arg or '**', cx(k.value)) for k in e.keywords)
+        kws = [(k.arg or '**', cx(k.value)) for k in e.keywords]
+        if all(is_pure(k.value) and k.arg is not None for k in e.keywords):
+            kws = sorted(kws)
         return f'{cx(e.func)}(' + ','.join([cx(a) for a in e.args] + [f'{k}={v}' for k, v in kws]) + ')'
     if isinstance(e, ast.IfExp):
         return f'(ifexp {cx(e.test)} {cx(e.body)} {cx(e.orelse)})'
@@ -2130,7 +2622,7 @@ def cx(e):
 
         def flush():
             if lit:
-                parts.append('c' + repr(''.join(lit)))
+                parts.append('#' + repr(''.join(lit)))
                 del lit[:]
         for v in e.values:
             if isinstance(v, ast.Constant):
@@ -2180,7 +2672,7 @@ def cx(e):
     if isinstance(e, ast.NamedExpr):
         return f'(walrus {cx(e.target)} {cx(e.value)})'
     if isinstance(e, ast.Lambda):
-        return '(lambda ' + ast.unparse(e) + ')'
+        return '(lambda ' + ast.dump(e) + ')'          # as written (no renaming inside, see _Rename)
     if isinstance(e, ast.Await):
         return f'(await {cx(e.value)})'
     raise NotCanonicalisable(type(e).__name__)
@@ -2214,7 +2706,7 @@ def _atoms(cond, then, other, budget):
         # a regular-expression match is a match object (true) or None
         for a, b in ((cond.left, cond.comparators[0]), (cond.comparators[0], cond.left)):
             if isinstance(b, ast.Constant) and b.value is None and isinstance(a, ast.Call) and isinstance(a.func, ast.Attribute) \
-                    and a.func.attr in ('match', 'search', 'fullmatch') and (chain(a.func.value) or ('',))[-1].upper().startswith(('RE_', 'RE', '_RE')):
+                    and a.func.attr in ('match', 'search', 'fullmatch') and _stdlib_receiver(a.func.value) and (chain(a.func.value) or ('re',))[0] != 're':
                 return _atoms(a, other, then, budget) if isinstance(cond.ops[0], ast.Is) else _atoms(a, then, other, budget)
     if isinstance(cond, ast.Compare) and len(cond.ops) == 1:
         neg = {ast.NotEq: ast.Eq, ast.IsNot: ast.Is, ast.NotIn: ast.In}
@@ -2238,7 +2730,7 @@ def _atoms(cond, then, other, budget):
         if isinstance(cond.ops[0], ast.GtE):
             c2 = ast.Compare(left=cond.left, ops=[ast.Lt()], comparators=cond.comparators)
             return _atoms(c2, other, then, budget)
-        if isinstance(cond.ops[0], ast.LtE):
+        if isinstance(cond.ops[0], ast.LtE) and is_pure(cond.left) and is_pure(cond.comparators[0]):
             c2 = ast.Compare(left=cond.comparators[0], ops=[ast.Lt()], comparators=[cond.left])
             return _atoms(c2, other, then, budget)
     if isinstance(cond, ast.Call) and isinstance(cond.func, ast.Name) and cond.func.id == 'isinstance' and len(cond.args) == 2 and not cond.keywords \
@@ -2252,13 +2744,14 @@ def _atoms(cond, then, other, budget):
         arg = cond.args[0]
         if not isinstance(arg, (ast.GeneratorExp, ast.ListComp)):
             v = ast.Name(id='_each', ctx=ast.Load())
-            arg = ast.ListComp(elt=v, generators=[ast.comprehension(target=ast.Name(id='_each', ctx=ast.Store()), iter=arg, ifs=[], is_async=0)])
+            arg = ast.GeneratorExp(elt=v, generators=[ast.comprehension(target=ast.Name(id='_each', ctx=ast.Store()), iter=arg, ifs=[], is_async=0)])
+        kind = type(arg)            # a list is built completely, a generator is run until the answer is known: kept apart
         if cond.func.id == 'all':
             # all(P) is not any(not P)
             neg = _negate(arg.elt) or ast.UnaryOp(op=ast.Not(), operand=arg.elt)
-            a2 = ast.Call(func=ast.Name(id='any', ctx=ast.Load()), args=[ast.ListComp(elt=neg, generators=arg.generators)], keywords=[])
+            a2 = ast.Call(func=ast.Name(id='any', ctx=ast.Load()), args=[kind(elt=neg, generators=arg.generators)], keywords=[])
             return _mk_cond_leaf(a2, other, then)
-        a2 = ast.Call(func=ast.Name(id='any', ctx=ast.Load()), args=[ast.ListComp(elt=arg.elt, generators=arg.generators)], keywords=[])
+        a2 = ast.Call(func=ast.Name(id='any', ctx=ast.Load()), args=[kind(elt=arg.elt, generators=arg.generators)], keywords=[])
         return _mk_cond_leaf(a2, then, other)
     if isinstance(cond, ast.Call) and isinstance(cond.func, ast.Name) and cond.func.id == 'len' and len(cond.args) == 1 and not cond.keywords:
         # a length is true exactly when it is not 0
@@ -2296,14 +2789,14 @@ def _assume_local(tree, mark, val):
     the tree; other reads of mark are left alone (its value need not be the literal True / False)"""
     neg = f'(Not {mark})'
     text = repr(tree)
-    if neg not in text:
+    if neg not in text or mark not in _SIMPLE_STORES[0]:
         return tree
     if f"('{mark}'" in text or f"'aug', " in text and f"'{mark}'" in text:
         return tree
 
     def repl(x):
         if isinstance(x, str):
-            return x.replace(neg, 'cFalse' if val else 'cTrue')
+            return x.replace(neg, '#False' if val else '#True')
         if isinstance(x, tuple):
             return tuple(repl(y) for y in x)
         return x
@@ -2323,10 +2816,45 @@ def _assume(tree, c, val):
             if t2 is not t or e2 is not e:
                 return tree[:i] + (t2 if t2 == e2 else (('if', a, t2, e2),))
             return tree
-        if node[0] == 'assign' and all(_re.fullmatch(r'[\w' + MARK + r'.]+', t_) and t_ not in c for t_ in node[1]) and not _re.search(r'[\w\]]\(', node[2]):
-            continue        # e.g. self.x = self.y between two tests of self.z
+        if node[0] == 'assign' and all(_re.fullmatch(r'[\w' + MARK + r'.]+', t_) and t_ not in c and not _aliased_in(t_, c) for t_ in node[1]) and _effect_free_text(node[2]):
+            # e.g. self.x = self.y between two tests of self.z; the test itself written as the value is its known truth value
+            # (comparisons give truth values, DESIGN 8.9)
+            if c.startswith(('(Eq ', '(Is ', '(In ', '(Lt ')) and 'ambda' not in node[2] and (c in node[2] or _neg_text(c) in node[2]):
+                v2 = node[2].replace(c, '#True' if val else '#False').replace(_neg_text(c), '#False' if val else '#True')
+                tree = tree[:i] + (('assign', node[1], v2),) + tree[i + 1:]
+            continue
         return tree
     return tree
+
+
+def _aliased_in(target, c):
+    """the assignment target (text) goes through a local that may be another name for something the test c reads"""
+    root = target.split('.')[0].strip(MARK)
+    for p, q in ALIASES[0]:
+        for a, b in ((p, q), (q, p)):
+            if a == (root,) and ('.'.join(b) in c or '.'.join([MARK + b[0] + MARK] + list(b[1:])) in c):
+                return True
+    return False
+
+
+_PURE_HEADS = {'Eq', 'NotEq', 'Lt', 'LtE', 'Gt', 'GtE', 'Is', 'IsNot', 'In', 'NotIn', 'Not', 'And', 'Or', 'Add', 'Sub', 'Mult', 'Div', 'FloorDiv', 'Mod', 'Pow', 'LShift', 'RShift',
+               'BitAnd', 'BitOr', 'BitXor', 'USub', 'UAdd', 'Invert', 'ifexp', 'tuple', 'cmp'}
+
+
+def _effect_free_text(v):
+    """the canonical text of a value built from names, attribute reads, literals and operators only: no call, no yield / await
+    (control leaves the function there and anything may change), no walrus, no display that allocates"""
+    import re as _re
+    if _re.search(r'[\w\]\)\'"]\(', v):           # something applied to arguments
+        return False
+    return all(h in _PURE_HEADS for h in _re.findall(r'\((\w+)', v)) and not _re.search(r'\(\s*[^\w(]', v.replace('(#', '(X'))
+
+
+def _neg_text(c):
+    for a, b in (('(Eq ', '(NotEq '), ('(Is ', '(IsNot '), ('(In ', '(NotIn '), ('(Lt ', '(GtE ')):
+        if c.startswith(a):
+            return b + c[len(a):]
+    return '\0'
 
 
 def _mk_if(c, then, other):
@@ -2344,7 +2872,7 @@ def _mk_if(c, then, other):
 
 
 LOOP_END = (('continue',),)              # falling off the end of a loop body is `continue`
-FUNC_END = (('return', 'cNone'),)        # falling off the end of a function is `return None`
+FUNC_END = (('return', '#None'),)        # falling off the end of a function is `return None`
 
 
 def _may_leave(st):
@@ -2363,7 +2891,7 @@ def seq(stmts, k, budget):
         return seq(stmts[1:], k, budget)
     if isinstance(st, ast.Return) and st.value is not None and _is_boolean(st.value) and not (isinstance(st.value, ast.Constant)):
         # returning a truth value is returning True on one branch and False on the other
-        return _atoms(st.value, (('return', 'cTrue'),), (('return', 'cFalse'),), budget)
+        return _atoms(st.value, (('return', '#True'),), (('return', '#False'),), budget)
     if isinstance(st, TERMINATORS):
         return (_cstmt(st, budget),)
     if isinstance(st, ast.Try) and not st.finalbody:
@@ -2380,14 +2908,17 @@ def seq(stmts, k, budget):
     if isinstance(st, (ast.With, ast.AsyncWith)):
         rest = seq(stmts[1:], k, budget)
         items = tuple((cx(i.context_expr), cx(i.optional_vars)) for i in st.items)
-        simple = len(rest) == 1 and rest[0][0] == 'return' and '(' not in rest[0][1] and '[' not in rest[0][1]
+        _wtag = 'with' if isinstance(st, ast.With) else 'asyncwith'
+        import re as _re
+        # (a plain local or a literal: reading it before or after __exit__ is the same; an attribute may be changed by __exit__)
+        simple = len(rest) == 1 and rest[0][0] == 'return' and bool(_re.fullmatch(MARK + r'\w+' + MARK + r'|#(None|True|False|-?\d+)', rest[0][1]))
         body = seq(st.body, rest if simple else (), budget)
         budget[0] -= 1
         if simple or _tree_leaves(body):
             # `return name` after the block is the block's own last statement (the value is computed inside either way);
             # nothing follows a block that always leaves
-            return (('with', items, body),)
-        return (('with', items, body),) + rest
+            return ((_wtag, items, body),)
+        return ((_wtag, items, body),) + rest
     if isinstance(st, ast.If):
         # the statements after an `if` are the tail of both of its branches (a branch that always leaves drops its tail):
         # the result does not depend on whether the source wrote else-branches, guard clauses or nested ifs
@@ -2416,13 +2947,14 @@ def seq(stmts, k, budget):
         _, c, then, other = rest[0]
 
         def overwrites(br):
-            return bool(br) and br[0][0] == 'assign' and br[0][1] == (tgt,) and root not in br[0][2]
+            # (an override that can fail would leave the default in place in one spelling and the old value in the other)
+            return bool(br) and br[0][0] == 'assign' and br[0][1] == (tgt,) and root not in br[0][2] and _effect_free_text(br[0][2]) and '[' not in br[0][2]
         if tgt not in c and overwrites(then) != overwrites(other):
             node = ('assign', (tgt,), cx(st.value))
             budget[0] -= 1
             return (('if', c, then, (node,) + other),) if overwrites(then) else (('if', c, (node,) + then, other),)
     if isinstance(st, ast.Assign) and len(st.targets) == 1 and isinstance(st.targets[0], ast.Name) and (st.targets[0].id.startswith(MARK) or st.targets[0].id in _NO_CLOSURES[1]) \
-            and _NO_CLOSURES[0] and rest == (('return', cx(st.targets[0])),):
+            and _NO_CLOSURES[0] and rest == (('return', cx(st.targets[0])),) and st.targets[0].id not in _HANDLER_READS[0]:
         # `t = E` whose whole continuation is `return t` (t a local no nested scope sees): `return E`, wherever the source
         # placed the return (after an if/else, at the end of the function, directly behind the assignment)
         budget[0] -= 1
@@ -2436,7 +2968,7 @@ def _bubble(tree):
     import re as _re
 
     def simple(n):
-        return n[0] == 'assign' and len(n[1]) == 1 and _re.fullmatch(r'[\w.]+', n[1][0]) and _re.fullmatch(r'c(None|True|False|-?\d+(\.\d+)?)', n[2])
+        return n[0] == 'assign' and len(n[1]) == 1 and _re.fullmatch(r'[\w.]+', n[1][0]) and _re.fullmatch(r'#(None|True|False|-?\d+(\.\d+)?)', n[2])
     out = list(tree)
     i = 0
     while i + 1 < len(out) and simple(out[i]) and simple(out[i + 1]):
@@ -2459,6 +2991,7 @@ def _bubble_run(tree):
 
 _HANDLER_READS = [frozenset()]
 _TREE_SAFE = [frozenset()]
+_SIMPLE_STORES = [frozenset()]      # marked locals bound only by plain `name = value` statements
 
 
 def tree_safe_locals(func):
@@ -2487,19 +3020,32 @@ def tree_safe_locals(func):
             (loads if isinstance(n.ctx, ast.Load) else stores).setdefault(n.id, []).append(n)
         elif isinstance(n, ast.ExceptHandler) and n.name:
             stores.setdefault(n.name, []).append(n)
+        elif isinstance(n, (ast.Import, ast.ImportFrom)):
+            for a_ in n.names:
+                nm = (a_.asname or a_.name).split('.')[0]
+                stores.setdefault(nm, []).append(n)
+                stores.setdefault(MARK + nm + MARK, []).append(n)
     # region of every statement: the innermost enclosing loop body / loop else / try body / with body (a list of statements)
     region = {}
 
     def walk(stmts, reg):
         for st in stmts:
             region[id(st)] = reg
+            fin = isinstance(st, ast.Try) and bool(st.finalbody)
             for field in ('body', 'orelse', 'finalbody'):
                 sub = getattr(st, field, None)
                 if isinstance(sub, list) and sub and isinstance(sub[0], ast.stmt):
-                    cut = isinstance(st, (ast.For, ast.AsyncFor, ast.While)) or isinstance(st, (ast.With, ast.AsyncWith)) or isinstance(st, ast.Try) and field == 'body'
-                    walk(sub, sub if cut else reg)
+                    # the canonical tree of `what follows` ends at the end of: a loop body / loop else, a with body, a try body;
+                    # every part of a try statement that has a finally clause
+                    cut = isinstance(st, (ast.For, ast.AsyncFor, ast.While)) or isinstance(st, (ast.With, ast.AsyncWith)) or isinstance(st, ast.Try) and (field == 'body' or fin)
+                    if isinstance(st, ast.Try) and field == 'body' and not fin and isinstance(sub[-1], (ast.Return, ast.Continue, ast.Break)):
+                        # seq() moves a final return / continue / break of a try body to the else-part: it is not in the body's tree
+                        walk(sub[:-1], sub[:-1] or reg)
+                        walk(sub[-1:], reg)
+                    else:
+                        walk(sub, sub if cut else reg)
             for h in getattr(st, 'handlers', []):
-                walk(h.body, reg)
+                walk(h.body, h.body if fin else reg)
     walk(func.body, None)
     assigns = {}
     for n in ast.walk(func):
@@ -2507,7 +3053,8 @@ def tree_safe_locals(func):
             assigns.setdefault(n.targets[0].id, []).append(n)
     safe = set()
     for name, sts in assigns.items():
-        ok = True
+        # bound by plain `name = value` statements only (no tuple / for / with / walrus / except / augmented / del binding)
+        ok = len(sts) == len(stores.get(name, []))
         for st in sts:
             reg = region.get(id(st))
             if reg is None:
@@ -2517,6 +3064,14 @@ def tree_safe_locals(func):
             for ld in loads.get(name, []):
                 k = order[id(ld)]
                 if not (lo < k <= hi) or k < first:
+                    ok = False
+            # a later pass through the region (next iteration) must not reach a read without passing an assignment first:
+            # the assignment stands directly in the region, or a direct assignment of the name stands before it
+            if not any(x is st for x in reg):
+                holder = [x for x in reg if order[id(x)] <= order[id(st)] <= last_index(x)]
+                before = [x for x in reg if holder and order[id(x)] < order[id(holder[0])] and isinstance(x, ast.Assign) and len(x.targets) == 1
+                          and isinstance(x.targets[0], ast.Name) and x.targets[0].id == name]
+                if not before:
                     ok = False
         if ok:
             safe.add(name)
@@ -2590,7 +3145,7 @@ def _cstmt(st, budget):
     if budget[0] < 0:
         raise NotCanonicalisable('too large')
     if isinstance(st, ast.Return):
-        return ('return', cx(st.value) if st.value is not None else 'cNone')
+        return ('return', cx(st.value) if st.value is not None else '#None')
     if isinstance(st, ast.Raise):
         return ('raise', cx(st.exc), cx(st.cause))
     if isinstance(st, ast.Continue):
@@ -2610,7 +3165,7 @@ def _cstmt(st, budget):
     if isinstance(st, ast.Expr):
         return ('expr', cx(st.value))
     if isinstance(st, (ast.For, ast.AsyncFor)):
-        return ('for', cx(st.target), cx(st.iter), seq(st.body, LOOP_END, budget), seq(st.orelse, (), budget))
+        return ('for' if isinstance(st, ast.For) else 'asyncfor', cx(st.target), cx(st.iter), seq(st.body, LOOP_END, budget), seq(st.orelse, (), budget))
     if isinstance(st, ast.While):
         return ('while', repr(_atoms(st.test, (('T',),), (('F',),), budget)), seq(st.body, LOOP_END, budget), seq(st.orelse, (), budget))
     if isinstance(st, ast.Try):
@@ -2618,9 +3173,9 @@ def _cstmt(st, budget):
         return ('try', seq(st.body, (), budget), hs, seq(st.orelse, (), budget), seq(st.finalbody, (), budget))
     if isinstance(st, (ast.With, ast.AsyncWith)):
         items = tuple((cx(i.context_expr), cx(i.optional_vars)) for i in st.items)
-        return ('with', items, seq(st.body, (), budget))
+        return ('with' if isinstance(st, ast.With) else 'asyncwith', items, seq(st.body, (), budget))
     if isinstance(st, ast.Assert):
-        return ('assert', cx(st.test))
+        return ('assert', cx(st.test), cx(st.msg))
     if isinstance(st, ast.Delete):
         return ('del', tuple(cx(t) for t in st.targets))
     if isinstance(st, (ast.Global, ast.Nonlocal)):
@@ -2628,8 +3183,7 @@ def _cstmt(st, budget):
     if isinstance(st, (ast.Import, ast.ImportFrom)):
         return ('import', ast.unparse(st))
     if isinstance(st, (ast.FunctionDef, ast.AsyncFunctionDef)):
-        inner = canonical(st)
-        return ('def', st.name, inner if inner is not None else ast.unparse(st))
+        return ('def', type(st).__name__, ast.dump(st))         # nested functions are compared as written
     if isinstance(st, ast.ClassDef):
         return ('def', ast.unparse(st))
     raise NotCanonicalisable(type(st).__name__)
@@ -2690,12 +3244,101 @@ def sized_chains(scope_nodes):
     return ok - bad
 
 
+def module_bad_attrs(tree):
+    """attribute names that some statement of the module - in any class, function, on any receiver - binds to something that is
+    not a list / dict / set / tuple / string display (or that a class body gives such a default); None when the module sets
+    attributes by name (setattr, __dict__, vars), in which case nothing is known"""
+    bad = set()
+    for n in ast.walk(tree):
+        if isinstance(n, ast.Name) and n.id in ('setattr', 'vars', 'delattr') or isinstance(n, ast.Attribute) and n.attr in ('__dict__', '__setattr__'):
+            return None
+        pairs = []
+        if isinstance(n, ast.Assign):
+            pairs = [(t, n.value) for t in n.targets]
+        elif isinstance(n, ast.AnnAssign):
+            pairs = [(n.target, n.value)] if n.value is not None else []
+        elif isinstance(n, ast.AugAssign):
+            pairs = [(n.target, None)] if not isinstance(n.op, ast.Add) else []
+        elif isinstance(n, (ast.For, ast.AsyncFor, ast.comprehension)):
+            pairs = [(n.target, None)]
+        elif isinstance(n, (ast.With, ast.AsyncWith)):
+            pairs = [(i.optional_vars, None) for i in n.items if i.optional_vars is not None]
+        elif isinstance(n, ast.NamedExpr):
+            pairs = [(n.target, n.value)]
+        elif isinstance(n, ast.Delete):
+            pairs = [(t, None) for t in n.targets]
+        for t, v in pairs:
+            for x in ast.walk(t):
+                if isinstance(x, ast.Attribute) and isinstance(x.ctx, (ast.Store, ast.Del)):
+                    if isinstance(t, (ast.Tuple, ast.List)) or v is None or not _is_container_value(v):
+                        bad.add(x.attr)
+        if isinstance(n, ast.ClassDef):
+            for st in n.body:
+                tg = st.targets if isinstance(st, ast.Assign) else [st.target] if isinstance(st, ast.AnnAssign) and st.value is not None else []
+                for t in tg:
+                    for x in ast.walk(t):
+                        if isinstance(x, ast.Name) and not _is_container_value(st.value):
+                            bad.add(x.id)
+    return bad
+
+
+def _is_sequence_value(v):
+    if isinstance(v, (ast.List, ast.Tuple, ast.ListComp)):
+        return True
+    if isinstance(v, ast.Constant) and isinstance(v.value, (str, bytes)):
+        return True
+    if isinstance(v, ast.Call) and isinstance(v.func, ast.Name) and v.func.id in ('list', 'tuple', 'bytes', 'bytearray', 'sorted'):
+        return True
+    if isinstance(v, ast.BinOp) and isinstance(v.op, (ast.Add, ast.Mult)):
+        return _is_sequence_value(v.left) or _is_sequence_value(v.right)
+    return False
+
+
+def sequence_chains(scope_nodes):
+    """as sized_chains, for lists / tuples / strings only (things that enumerate() and indexing run through alike)"""
+    saved = globals()['_is_container_value']
+    globals()['_is_container_value'] = _is_sequence_value
+    try:
+        return sized_chains(scope_nodes)
+    finally:
+        globals()['_is_container_value'] = saved
+
+
+def module_all_properties(tree):
+    """every name decorated @property / @x.setter / cached_property in any class of the module, however nested"""
+    out = set()
+    for n in ast.walk(tree):
+        if isinstance(n, (ast.FunctionDef, ast.AsyncFunctionDef)) and n.decorator_list:
+            for d in n.decorator_list:
+                txt = ast.unparse(d)
+                if 'property' in txt or txt.endswith(('.setter', '.getter', '.deleter')):
+                    out.add(n.name)
+        if isinstance(n, ast.Assign) and isinstance(n.value, ast.Call) and isinstance(n.value.func, ast.Name) and n.value.func.id == 'property':
+            for t in n.targets:
+                if isinstance(t, ast.Name):
+                    out.add(t.id)
+    return out
+
+
+def module_bound_names(tree):
+    """names bound at module level (functions, classes, assignments, imports)"""
+    out = set()
+    for st in tree.body:
+        if isinstance(st, (ast.FunctionDef, ast.AsyncFunctionDef, ast.ClassDef)):
+            out.add(st.name)
+        elif isinstance(st, (ast.Import, ast.ImportFrom)):
+            out |= {(a.asname or a.name).split('.')[0] for a in st.names}
+        else:
+            out |= {n.id for n in ast.walk(st) if isinstance(n, ast.Name) and isinstance(n.ctx, (ast.Store, ast.Del))}
+    return out
+
+
 def module_properties(tree):
     """name -> expression over `self` for read-only properties that amount to `return E` (E free of side effects) and whose
     name is defined by one class of the module only and never assigned as an attribute"""
     found, count = {}, {}
     assigned = {n.attr for n in ast.walk(tree) if isinstance(n, ast.Attribute) and isinstance(n.ctx, (ast.Store, ast.Del))}
-    for c in tree.body:
+    for c in ast.walk(tree):
         if not isinstance(c, ast.ClassDef):
             continue
         for g in c.body:
@@ -2717,14 +3360,28 @@ def module_properties(tree):
 
 
 class _PropInline(ast.NodeTransformer):
-    def __init__(self, props):
+    def __init__(self, props, bound=()):
         self.props = props
         self.depth = 0
+        self.bound = set(bound)
+
+    def visit_Lambda(self, node):
+        return node
+    visit_ClassDef = visit_Lambda
+
+    def visit_FunctionDef(self, node):
+        if not getattr(self, '_root_seen', False):
+            self._root_seen = True
+            return self.generic_visit(node)
+        return node
+    visit_AsyncFunctionDef = visit_FunctionDef
 
     def visit_Attribute(self, node):
         self.generic_visit(node)
         if isinstance(node.ctx, ast.Load) and node.attr in self.props and is_pure(node.value) and self.depth < 4:
             selfname, expr = self.props[node.attr]
+            if (_free_names(expr) - {selfname}) & self.bound or any(isinstance(x, _COMPS + (ast.Lambda,)) for x in ast.walk(expr)):
+                return node         # a free name of the property body would be captured by a name the function binds
             self.depth += 1
             out = _Subst({selfname: node.value}).visit(copy.deepcopy(expr))
             out = self.visit(out)
@@ -2779,20 +3436,138 @@ def module_constants(tree):
 
 
 _SIZED = [frozenset()]
+_SEQS = [frozenset()]       # chains only ever bound to lists / tuples / strings (ctx['seqs'])
 _DICTS = [frozenset()]      # module-level names bound once to a dict display and not shadowed in the function at hand
 _CLASS = [None]
 _NO_CLOSURES = [False, ()]
 
 
-def canonical(func, helpers=None, consts=None, sized=None, cls_name=None, props=None, dicts=None):
+BUILTIN_SENSITIVE = PURE_FUNCS | CONSUMERS | {'isinstance', 'hasattr', 'bool', 'callable', 'issubclass', 'all', 'any', 'len', 'super', 'iter', 'next', 'map',
+                                              'filter', 'print', 'open', 'property', 'staticmethod', 'classmethod', 'setattr', 'delattr', 'vars', 'globals', 'locals'}
+
+
+def _container_value(v):
+    """an expression whose value is certainly not an iterator / generator"""
+    if isinstance(v, (ast.List, ast.Tuple, ast.Dict, ast.Set, ast.ListComp, ast.SetComp, ast.DictComp, ast.JoinedStr)):
+        return True
+    if isinstance(v, ast.Constant):
+        return True
+    if isinstance(v, ast.Call) and isinstance(v.func, ast.Name) and v.func.id in ('list', 'dict', 'set', 'tuple', 'sorted', 'bytes', 'bytearray', 'str', 'frozenset', 'len', 'int', 'float', 'range'):
+        return True
+    if isinstance(v, ast.BinOp) and isinstance(v.op, (ast.Add, ast.Mult)):
+        return _container_value(v.left) or _container_value(v.right)
+    return False
+
+
+def _alias_sources(v):
+    """chains whose object the value of v may be (or contain): names / attributes / items read directly, through a conditional
+    expression, `or` / `and`, a walrus, or the lazy wrappers enumerate / zip / reversed / iter"""
+    if isinstance(v, (ast.Name, ast.Attribute, ast.Subscript)):
+        c = chain(v)
+        return {c} if c is not None else set()
+    if isinstance(v, ast.IfExp):
+        return _alias_sources(v.body) | _alias_sources(v.orelse)
+    if isinstance(v, ast.BoolOp):
+        out = set()
+        for x in v.values:
+            out |= _alias_sources(x)
+        return out
+    if isinstance(v, ast.NamedExpr):
+        return _alias_sources(v.value)
+    if isinstance(v, (ast.Tuple, ast.List)):
+        out = set()
+        for x in v.elts:
+            out |= _alias_sources(x.value if isinstance(x, ast.Starred) else x)
+        return out
+    if isinstance(v, ast.Call) and isinstance(v.func, ast.Name) and v.func.id in ('enumerate', 'zip', 'reversed', 'iter', 'sorted', 'list', 'tuple'):
+        out = set()
+        for x in v.args:
+            out |= _alias_sources(x)
+        return out
+    return set()
+
+
+def function_aliases(func):
+    pairs = set()
+
+    def targets(t):
+        if isinstance(t, (ast.Tuple, ast.List)):
+            out = set()
+            for x in t.elts:
+                out |= targets(x.value if isinstance(x, ast.Starred) else x)
+            return out
+        # (an item store `out[i] = e` puts e inside out; it does not make `out` another name for e)
+        c = chain(t) if isinstance(t, (ast.Name, ast.Attribute)) else None
+        return {c} if c is not None else set()
+    for n in ast.walk(func):
+        tg, src = set(), set()
+        if isinstance(n, ast.Assign):
+            for t in n.targets:
+                tg |= targets(t)
+            src = _alias_sources(n.value)
+        elif isinstance(n, ast.NamedExpr):
+            tg, src = targets(n.target), _alias_sources(n.value)
+        elif isinstance(n, (ast.For, ast.AsyncFor)):
+            tg, src = targets(n.target), _alias_sources(n.iter)
+        elif isinstance(n, ast.comprehension):
+            tg, src = targets(n.target), _alias_sources(n.iter)
+        elif isinstance(n, (ast.With, ast.AsyncWith)):
+            for it in n.items:
+                if it.optional_vars is not None:
+                    for a in targets(it.optional_vars):
+                        for b in _alias_sources(it.context_expr):
+                            if a != b:
+                                pairs.add((a, b))
+            continue
+        for a in tg:
+            for b in src:
+                if a != b:
+                    pairs.add((a, b))
+    return tuple(sorted(pairs))
+
+
+def canonical(func, helpers=None, consts=None, sized=None, cls_name=None, props=None, dicts=None, ctx=None):
     """canonical form (text) of a function, or None if it cannot be built.
     helpers: name -> (FunctionDef, is_method) of functions that may be pasted into the body (those the other version of the
     module does not define)."""
     import re
     try:
-        saved = (_SIZED[0], _CLASS[0], _NO_CLOSURES[0], _NO_CLOSURES[1], _DICTS[0])
+        saved = (_SIZED[0], _CLASS[0], _NO_CLOSURES[0], _NO_CLOSURES[1], _DICTS[0], NOT_ITERATORS[0], SHADOWED[0], ALIASES[0], ALL_PROPS[0], _TREE_SAFE[0], _HANDLER_READS[0],
+                 set(_PURE_ATOMS))
+        ctx = ctx or {}
+        if any(isinstance(n, (ast.Global, ast.Nonlocal)) for n in ast.walk(func)):
+            raise NotCanonicalisable('global / nonlocal')           # such names are not locals: none of the local-variable steps applies
+        # every name the function binds, by whatever means, in whatever scope inside it
         _bound = set(_params(func)) | {n.id for n in ast.walk(func) if isinstance(n, ast.Name) and isinstance(n.ctx, (ast.Store, ast.Del))}
+        _bound |= {a.arg for n in ast.walk(func) if n is not func and isinstance(n, (ast.FunctionDef, ast.AsyncFunctionDef, ast.Lambda)) for a in ast.walk(n.args) if isinstance(a, ast.arg)}
+        _bound |= {n.name for n in ast.walk(func) if isinstance(n, ast.ExceptHandler) and n.name}
+        _bound |= {n.name for n in ast.walk(func) if n is not func and isinstance(n, (ast.FunctionDef, ast.AsyncFunctionDef, ast.ClassDef))}
+        _bound |= {(a.asname or a.name).split('.')[0] for n in ast.walk(func) if isinstance(n, (ast.Import, ast.ImportFrom)) for a in n.names}
+        if _bound & BUILTIN_SENSITIVE:
+            raise NotCanonicalisable('a builtin name is rebound')
+        mod_shadow = frozenset(ctx.get('module_bound', ())) & BUILTIN_SENSITIVE
+        if mod_shadow and any(isinstance(n, ast.Name) and n.id in mod_shadow for n in ast.walk(func)):
+            raise NotCanonicalisable('a builtin name is rebound by the module')
+        SHADOWED[0] = mod_shadow
+        _SELF_FIRST[0] = bool(func.args.args) and func.args.args[0].arg == 'self'
+        _saved_om = _OTHER_METHODS[0]
+        _OTHER_METHODS[0] = frozenset(ctx.get('other_class_methods', ()))
+        _saved_mg = MUTABLE_GLOBALS[0]
+        MUTABLE_GLOBALS[0] = frozenset(ctx.get('mutable_globals', ()))
+        ALL_PROPS[0] = frozenset(ctx.get('all_props', ()))
+        _saved_seqs = _SEQS[0]
+        _SEQS[0] = frozenset(tuple(c) for c in ctx.get('seqs', ()))
         _DICTS[0] = frozenset(d for d in (dicts or ()) if d not in _bound)
+        _stores = {}
+        for n in ast.walk(func):
+            if isinstance(n, ast.Name) and isinstance(n.ctx, (ast.Store, ast.Del)):
+                _stores.setdefault(n.id, []).append(n)
+        _good = {}
+        for n in ast.walk(func):
+            if isinstance(n, ast.Assign) and len(n.targets) == 1 and isinstance(n.targets[0], ast.Name) and _container_value(n.value):
+                _good[n.targets[0].id] = _good.get(n.targets[0].id, 0) + 1
+        NOT_ITERATORS[0] = frozenset(k for k, v in _good.items() if v == len(_stores.get(k, [])) and k not in _params(func))
+        ALIASES[0] = function_aliases(func)
         _SIZED[0] = frozenset(sized or ()) if sized is not None else _SIZED[0]
         _CLASS[0] = cls_name if cls_name is not None else _CLASS[0]
         f = copy.deepcopy(func)
@@ -2815,11 +3590,10 @@ def canonical(func, helpers=None, consts=None, sized=None, cls_name=None, props=
                 if not (x or y):
                     break
         if consts:
-            bound = set(_params(f)) | {n.id for n in ast.walk(f) if isinstance(n, ast.Name) and isinstance(n.ctx, (ast.Store, ast.Del))}
-            _Subst({k: v for k, v in consts.items() if k not in bound}).visit(f)
+            _Subst({k: v for k, v in consts.items() if k not in _bound}).visit(f)
         if props:
             own = func.name if any(isinstance(d, ast.Name) and d.id == 'property' for d in func.decorator_list) else None
-            f = _PropInline({k: v for k, v in props.items() if k != own}).visit(f)
+            f = _PropInline({k: v for k, v in props.items() if k != own}, _bound).visit(f)
         _ExprRewrite().visit(f)
         ast.fix_missing_locations(f)
         for _ in range(8):
@@ -2833,7 +3607,7 @@ def canonical(func, helpers=None, consts=None, sized=None, cls_name=None, props=
             h = loops_to_comprehensions(f)
             h = loops_to_any(f) or h
             h = sink_bool_assign(f) or h
-            h = loops_to_sum(f) or h
+            # (loops_to_sum is not applied: sum() of floats is compensated since Python 3.12, the loop is not)
             h = try_keyerror_idioms(f) or h
             h = sink_into_branches(f) or h
             h = fold_flag_reads(f) or h
@@ -2850,7 +3624,9 @@ def canonical(func, helpers=None, consts=None, sized=None, cls_name=None, props=
                     break
         params = _params(f)
         _, stores, _ = _defs_and_uses(f)
-        local_names = {n for n in stores if n not in params}
+        _comp_targets = {id(x) for c_ in ast.walk(f) if isinstance(c_, _COMPS) for g_ in c_.generators for x in ast.walk(g_.target)}
+        # (a comprehension's variables are its own: a read of the same spelling outside it is a module-level name)
+        local_names = {n for n, nodes in stores.items() if n not in params and not all(id(x) in _comp_targets for x in nodes)}
         # nested scopes keep their spelling (their text is compared as written)
         _Rename({n: f'{MARK}{n}{MARK}' for n in local_names}).visit(f)
         sort_independent_runs(f)
@@ -2865,6 +3641,20 @@ def canonical(func, helpers=None, consts=None, sized=None, cls_name=None, props=
                         hr |= {n.id for n in ast.walk(s_) if isinstance(n, ast.Name)}
         _HANDLER_READS[0] = frozenset(hr)
         _TREE_SAFE[0] = tree_safe_locals(f)
+        _st, _as = {}, {}
+        for n in ast.walk(f):
+            if isinstance(n, ast.Name) and isinstance(n.ctx, (ast.Store, ast.Del)):
+                _st[n.id] = _st.get(n.id, 0) + 1
+            elif isinstance(n, ast.ExceptHandler) and n.name:
+                _st[n.name] = _st.get(n.name, 0) + 1
+            elif isinstance(n, (ast.Import, ast.ImportFrom)):
+                for a_ in n.names:
+                    k_ = MARK + (a_.asname or a_.name).split('.')[0] + MARK
+                    _st[k_] = _st.get(k_, 0) + 1
+                    _st[k_[1:-1]] = _st.get(k_[1:-1], 0) + 1
+            elif isinstance(n, ast.Assign) and len(n.targets) == 1 and isinstance(n.targets[0], ast.Name):
+                _as[n.targets[0].id] = _as.get(n.targets[0].id, 0) + 1
+        _SIMPLE_STORES[0] = frozenset(k for k, v in _st.items() if _as.get(k, 0) == v)
         tree = seq(f.body, FUNC_END, [60000])
         text = repr(tree)
         seen = {}
@@ -2872,14 +3662,19 @@ def canonical(func, helpers=None, consts=None, sized=None, cls_name=None, props=
         def rep(m):
             k = m.group(1)
             if k not in seen:
-                seen[k] = f'_L{len(seen)}'
+                seen[k] = f'$L{len(seen)}'
             return seen[k]
         text = re.sub(MARK + '([^' + MARK + ']+)' + MARK, rep, text)
-        return _signature(f) + ' :: ' + text
+        return ('async ' if isinstance(func, ast.AsyncFunctionDef) else '') + _signature(f) + ' :: ' + text
     except (NotCanonicalisable, RecursionError):
         return None
     finally:
         try:
-            _SIZED[0], _CLASS[0], _NO_CLOSURES[0], _NO_CLOSURES[1], _DICTS[0] = saved
+            _SIZED[0], _CLASS[0], _NO_CLOSURES[0], _NO_CLOSURES[1], _DICTS[0], NOT_ITERATORS[0], SHADOWED[0], ALIASES[0], ALL_PROPS[0], _TREE_SAFE[0], _HANDLER_READS[0] = saved[:11]
+            _PURE_ATOMS.clear()
+            _PURE_ATOMS.update(saved[11])
+            _SEQS[0] = _saved_seqs
+            _OTHER_METHODS[0] = _saved_om
+            MUTABLE_GLOBALS[0] = _saved_mg
         except NameError:
             pass
